@@ -405,6 +405,12 @@ module N =
   | N0 -> Npos XH
   | Npos p0 -> Npos (Coq_Pos.succ p0)
 
+  (** val succ_pos : n -> positive **)
+
+  let succ_pos = function
+  | N0 -> XH
+  | Npos p0 -> Coq_Pos.succ p0
+
   (** val add : n -> n -> n **)
 
   let add n0 m0 =
@@ -569,7 +575,7 @@ let rec nth n0 l default =
           | x :: _ -> x)
   | S m0 -> (match l with
              | [] -> default
-             | _ :: t -> nth m0 t default)
+             | _ :: t0 -> nth m0 t0 default)
 
 (** val nth_error : 'a1 list -> nat -> 'a1 option **)
 
@@ -597,14 +603,14 @@ let rec concat = function
 
 let rec map f = function
 | [] -> []
-| a :: t -> (f a) :: (map f t)
+| a :: t0 -> (f a) :: (map f t0)
 
 (** val fold_left : ('a1 -> 'a2 -> 'a1) -> 'a2 list -> 'a1 -> 'a1 **)
 
 let rec fold_left f l a0 =
   match l with
   | [] -> a0
-  | b :: t -> fold_left f t (f a0 b)
+  | b :: t0 -> fold_left f t0 (f a0 b)
 
 (** val existsb : ('a1 -> bool) -> 'a1 list -> bool **)
 
@@ -1253,20 +1259,6 @@ let rec assoc_str k = function
 | p0 :: r ->
   let (k', v) = p0 in if str_eqb k k' then Some v else assoc_str k r
 
-(** val assoc_n : n -> (n * 'a1) list -> 'a1 option **)
-
-let rec assoc_n k = function
-| [] -> None
-| p0 :: r -> let (k', v) = p0 in if N.eqb k k' then Some v else assoc_n k r
-
-(** val update_n : n -> 'a1 -> (n * 'a1) list -> (n * 'a1) list **)
-
-let rec update_n k v = function
-| [] -> (k, v) :: []
-| p0 :: r ->
-  let (k', v') = p0 in
-  if N.eqb k k' then (k, v) :: r else (k', v') :: (update_n k v r)
-
 (** val nth_z : 'a1 list -> z -> 'a1 option **)
 
 let rec nth_z l i =
@@ -1754,8 +1746,8 @@ let data_type_words =
 let rec lookup_kw w = function
 | [] -> None
 | p0 :: r ->
-  let (k, t) = p0 in
-  if str_eqb w (str_of_string k) then Some t else lookup_kw w r
+  let (k, t0) = p0 in
+  if str_eqb w (str_of_string k) then Some t0 else lookup_kw w r
 
 (** val is_data_type_word : str -> bool **)
 
@@ -1784,67 +1776,67 @@ let rec word_loop fuel s acc =
 let make_word pedantic s toks =
   let startcol = s.col in
   let (s', w) = word_loop (S (length s.rest)) s [] in
-  let mk = fun t v -> { tt = t; tline = s'.line; tcol = startcol; tval = v }
+  let mk = fun t0 v -> { tt = t0; tline = s'.line; tcol = startcol; tval = v }
   in
   (match lookup_kw w keywords with
-   | Some t ->
-     (match t with
-      | TINTEGER -> LOk (s', ((mk t []) :: toks))
-      | TREAL -> LOk (s', ((mk t []) :: toks))
-      | TCHAR -> LOk (s', ((mk t []) :: toks))
-      | TSTRING -> LOk (s', ((mk t []) :: toks))
-      | TDATE -> LOk (s', ((mk t []) :: toks))
-      | TRPAREN -> LOk (s', ((mk t []) :: toks))
-      | TLPAREN -> LOk (s', ((mk t []) :: toks))
-      | TPLUS -> LOk (s', ((mk t []) :: toks))
-      | TMINUS -> LOk (s', ((mk t []) :: toks))
-      | TSTAR -> LOk (s', ((mk t []) :: toks))
-      | TSLASH -> LOk (s', ((mk t []) :: toks))
-      | TDIV -> LOk (s', ((mk t []) :: toks))
-      | TMOD -> LOk (s', ((mk t []) :: toks))
-      | TAMPERSAND -> LOk (s', ((mk t []) :: toks))
-      | TASSIGNMENT -> LOk (s', ((mk t []) :: toks))
-      | TCOLON -> LOk (s', ((mk t []) :: toks))
-      | TCOMMA -> LOk (s', ((mk t []) :: toks))
-      | TEQUALS -> LOk (s', ((mk t []) :: toks))
-      | TNOT_EQUALS -> LOk (s', ((mk t []) :: toks))
-      | TGREATER -> LOk (s', ((mk t []) :: toks))
-      | TLESSER -> LOk (s', ((mk t []) :: toks))
-      | TGREATER_EQUAL -> LOk (s', ((mk t []) :: toks))
-      | TLESSER_EQUAL -> LOk (s', ((mk t []) :: toks))
-      | TAND -> LOk (s', ((mk t []) :: toks))
-      | TOR -> LOk (s', ((mk t []) :: toks))
-      | TNOT -> LOk (s', ((mk t []) :: toks))
-      | TTRUE -> LOk (s', ((mk t []) :: toks))
-      | TFALSE -> LOk (s', ((mk t []) :: toks))
-      | TDECLARE -> LOk (s', ((mk t []) :: toks))
-      | TCONSTANT -> LOk (s', ((mk t []) :: toks))
-      | TIDENTIFIER -> LOk (s', ((mk t []) :: toks))
-      | TDATA_TYPE -> LOk (s', ((mk t []) :: toks))
-      | TARRAY -> LOk (s', ((mk t []) :: toks))
-      | TLSQRBRACKET -> LOk (s', ((mk t []) :: toks))
-      | TRSQRBRACKET -> LOk (s', ((mk t []) :: toks))
-      | TTYPE -> LOk (s', ((mk t []) :: toks))
-      | TENDTYPE -> LOk (s', ((mk t []) :: toks))
-      | TCARET -> LOk (s', ((mk t []) :: toks))
-      | TPERIOD -> LOk (s', ((mk t []) :: toks))
-      | TIF -> LOk (s', ((mk t []) :: toks))
-      | TTHEN -> LOk (s', ((mk t []) :: toks))
-      | TELSE -> LOk (s', ((mk t []) :: toks))
-      | TENDIF -> LOk (s', ((mk t []) :: toks))
-      | TCASE -> LOk (s', ((mk t []) :: toks))
-      | TOF -> LOk (s', ((mk t []) :: toks))
-      | TOTHERWISE -> LOk (s', ((mk t []) :: toks))
-      | TENDCASE -> LOk (s', ((mk t []) :: toks))
-      | TWHILE -> LOk (s', ((mk t []) :: toks))
-      | TDO -> LOk (s', ((mk t []) :: toks))
-      | TENDWHILE -> LOk (s', ((mk t []) :: toks))
-      | TREPEAT -> LOk (s', ((mk t []) :: toks))
-      | TUNTIL -> LOk (s', ((mk t []) :: toks))
-      | TFOR -> LOk (s', ((mk t []) :: toks))
-      | TTO -> LOk (s', ((mk t []) :: toks))
-      | TSTEP -> LOk (s', ((mk t []) :: toks))
-      | TNEXT -> LOk (s', ((mk t []) :: toks))
+   | Some t0 ->
+     (match t0 with
+      | TINTEGER -> LOk (s', ((mk t0 []) :: toks))
+      | TREAL -> LOk (s', ((mk t0 []) :: toks))
+      | TCHAR -> LOk (s', ((mk t0 []) :: toks))
+      | TSTRING -> LOk (s', ((mk t0 []) :: toks))
+      | TDATE -> LOk (s', ((mk t0 []) :: toks))
+      | TRPAREN -> LOk (s', ((mk t0 []) :: toks))
+      | TLPAREN -> LOk (s', ((mk t0 []) :: toks))
+      | TPLUS -> LOk (s', ((mk t0 []) :: toks))
+      | TMINUS -> LOk (s', ((mk t0 []) :: toks))
+      | TSTAR -> LOk (s', ((mk t0 []) :: toks))
+      | TSLASH -> LOk (s', ((mk t0 []) :: toks))
+      | TDIV -> LOk (s', ((mk t0 []) :: toks))
+      | TMOD -> LOk (s', ((mk t0 []) :: toks))
+      | TAMPERSAND -> LOk (s', ((mk t0 []) :: toks))
+      | TASSIGNMENT -> LOk (s', ((mk t0 []) :: toks))
+      | TCOLON -> LOk (s', ((mk t0 []) :: toks))
+      | TCOMMA -> LOk (s', ((mk t0 []) :: toks))
+      | TEQUALS -> LOk (s', ((mk t0 []) :: toks))
+      | TNOT_EQUALS -> LOk (s', ((mk t0 []) :: toks))
+      | TGREATER -> LOk (s', ((mk t0 []) :: toks))
+      | TLESSER -> LOk (s', ((mk t0 []) :: toks))
+      | TGREATER_EQUAL -> LOk (s', ((mk t0 []) :: toks))
+      | TLESSER_EQUAL -> LOk (s', ((mk t0 []) :: toks))
+      | TAND -> LOk (s', ((mk t0 []) :: toks))
+      | TOR -> LOk (s', ((mk t0 []) :: toks))
+      | TNOT -> LOk (s', ((mk t0 []) :: toks))
+      | TTRUE -> LOk (s', ((mk t0 []) :: toks))
+      | TFALSE -> LOk (s', ((mk t0 []) :: toks))
+      | TDECLARE -> LOk (s', ((mk t0 []) :: toks))
+      | TCONSTANT -> LOk (s', ((mk t0 []) :: toks))
+      | TIDENTIFIER -> LOk (s', ((mk t0 []) :: toks))
+      | TDATA_TYPE -> LOk (s', ((mk t0 []) :: toks))
+      | TARRAY -> LOk (s', ((mk t0 []) :: toks))
+      | TLSQRBRACKET -> LOk (s', ((mk t0 []) :: toks))
+      | TRSQRBRACKET -> LOk (s', ((mk t0 []) :: toks))
+      | TTYPE -> LOk (s', ((mk t0 []) :: toks))
+      | TENDTYPE -> LOk (s', ((mk t0 []) :: toks))
+      | TCARET -> LOk (s', ((mk t0 []) :: toks))
+      | TPERIOD -> LOk (s', ((mk t0 []) :: toks))
+      | TIF -> LOk (s', ((mk t0 []) :: toks))
+      | TTHEN -> LOk (s', ((mk t0 []) :: toks))
+      | TELSE -> LOk (s', ((mk t0 []) :: toks))
+      | TENDIF -> LOk (s', ((mk t0 []) :: toks))
+      | TCASE -> LOk (s', ((mk t0 []) :: toks))
+      | TOF -> LOk (s', ((mk t0 []) :: toks))
+      | TOTHERWISE -> LOk (s', ((mk t0 []) :: toks))
+      | TENDCASE -> LOk (s', ((mk t0 []) :: toks))
+      | TWHILE -> LOk (s', ((mk t0 []) :: toks))
+      | TDO -> LOk (s', ((mk t0 []) :: toks))
+      | TENDWHILE -> LOk (s', ((mk t0 []) :: toks))
+      | TREPEAT -> LOk (s', ((mk t0 []) :: toks))
+      | TUNTIL -> LOk (s', ((mk t0 []) :: toks))
+      | TFOR -> LOk (s', ((mk t0 []) :: toks))
+      | TTO -> LOk (s', ((mk t0 []) :: toks))
+      | TSTEP -> LOk (s', ((mk t0 []) :: toks))
+      | TNEXT -> LOk (s', ((mk t0 []) :: toks))
       | TBREAK ->
         if pedantic
         then LErr { le_kind = LexPedantic; le_line = s'.line; le_col =
@@ -1855,30 +1847,30 @@ let make_word pedantic s toks =
         then LErr { le_kind = LexPedantic; le_line = s'.line; le_col =
                startcol }
         else LOk (s', ((mk TCONTINUE []) :: toks))
-      | TPROCEDURE -> LOk (s', ((mk t []) :: toks))
-      | TBYREF -> LOk (s', ((mk t []) :: toks))
-      | TBYVAL -> LOk (s', ((mk t []) :: toks))
-      | TENDPROCEDURE -> LOk (s', ((mk t []) :: toks))
-      | TCALL -> LOk (s', ((mk t []) :: toks))
-      | TFUNCTION -> LOk (s', ((mk t []) :: toks))
-      | TENDFUNCTION -> LOk (s', ((mk t []) :: toks))
-      | TRETURNS -> LOk (s', ((mk t []) :: toks))
-      | TRETURN -> LOk (s', ((mk t []) :: toks))
-      | TOUTPUT -> LOk (s', ((mk t []) :: toks))
-      | TINPUT -> LOk (s', ((mk t []) :: toks))
-      | TOPENFILE -> LOk (s', ((mk t []) :: toks))
-      | TREADFILE -> LOk (s', ((mk t []) :: toks))
-      | TWRITEFILE -> LOk (s', ((mk t []) :: toks))
-      | TCLOSEFILE -> LOk (s', ((mk t []) :: toks))
-      | TREAD -> LOk (s', ((mk t []) :: toks))
-      | TWRITE -> LOk (s', ((mk t []) :: toks))
-      | TAPPEND -> LOk (s', ((mk t []) :: toks))
-      | TRANDOM -> LOk (s', ((mk t []) :: toks))
-      | TSEEK -> LOk (s', ((mk t []) :: toks))
-      | TGETRECORD -> LOk (s', ((mk t []) :: toks))
-      | TPUTRECORD -> LOk (s', ((mk t []) :: toks))
-      | TLINE_END -> LOk (s', ((mk t []) :: toks))
-      | TEXPRESSION_END -> LOk (s', ((mk t []) :: toks)))
+      | TPROCEDURE -> LOk (s', ((mk t0 []) :: toks))
+      | TBYREF -> LOk (s', ((mk t0 []) :: toks))
+      | TBYVAL -> LOk (s', ((mk t0 []) :: toks))
+      | TENDPROCEDURE -> LOk (s', ((mk t0 []) :: toks))
+      | TCALL -> LOk (s', ((mk t0 []) :: toks))
+      | TFUNCTION -> LOk (s', ((mk t0 []) :: toks))
+      | TENDFUNCTION -> LOk (s', ((mk t0 []) :: toks))
+      | TRETURNS -> LOk (s', ((mk t0 []) :: toks))
+      | TRETURN -> LOk (s', ((mk t0 []) :: toks))
+      | TOUTPUT -> LOk (s', ((mk t0 []) :: toks))
+      | TINPUT -> LOk (s', ((mk t0 []) :: toks))
+      | TOPENFILE -> LOk (s', ((mk t0 []) :: toks))
+      | TREADFILE -> LOk (s', ((mk t0 []) :: toks))
+      | TWRITEFILE -> LOk (s', ((mk t0 []) :: toks))
+      | TCLOSEFILE -> LOk (s', ((mk t0 []) :: toks))
+      | TREAD -> LOk (s', ((mk t0 []) :: toks))
+      | TWRITE -> LOk (s', ((mk t0 []) :: toks))
+      | TAPPEND -> LOk (s', ((mk t0 []) :: toks))
+      | TRANDOM -> LOk (s', ((mk t0 []) :: toks))
+      | TSEEK -> LOk (s', ((mk t0 []) :: toks))
+      | TGETRECORD -> LOk (s', ((mk t0 []) :: toks))
+      | TPUTRECORD -> LOk (s', ((mk t0 []) :: toks))
+      | TLINE_END -> LOk (s', ((mk t0 []) :: toks))
+      | TEXPRESSION_END -> LOk (s', ((mk t0 []) :: toks)))
    | None ->
      if is_data_type_word w
      then LOk (s', ((mk TDATA_TYPE w) :: toks))
@@ -2078,9 +2070,9 @@ let simple_tok c =
 
 let lex_step pedantic s toks =
   let c = curc s in
-  let here = fun t -> { tt = t; tline = s.line; tcol = s.col; tval = [] } in
+  let here = fun t0 -> { tt = t0; tline = s.line; tcol = s.col; tval = [] } in
   (match simple_tok c with
-   | Some t -> LOk ((advance s), ((here t) :: toks))
+   | Some t0 -> LOk ((advance s), ((here t0) :: toks))
    | None ->
      if aeqb c '/'
      then let s1 = advance s in
@@ -2094,10 +2086,10 @@ let lex_step pedantic s toks =
                  | Some p0 ->
                    (match toks with
                     | [] -> false
-                    | t :: _ ->
+                    | t0 :: _ ->
                       (&&)
                         ((&&) (negb (aeqb p0 ch_space))
-                          (negb (aeqb p0 ch_tab))) (io_keyword t.tt))
+                          (negb (aeqb p0 ch_tab))) (io_keyword t0.tt))
                  | None -> false
                in
                if blocked
@@ -2327,49 +2319,49 @@ type block = node list
 (** val node_token : node -> token **)
 
 let node_token = function
-| NInt t -> t
-| NReal t -> t
-| NBool t -> t
-| NChar t -> t
-| NStr t -> t
-| NDate t -> t
-| NNeg (t, _) -> t
-| NArith (t, _, _) -> t
-| NCmp (t, _, _) -> t
-| NLogic (t, _, _) -> t
-| NNot (t, _) -> t
-| NCat (t, _, _) -> t
-| NCast (t, _, _) -> t
-| NAccess (t, _) -> t
-| NAssign (t, _, _) -> t
-| NPtrAssign (t, _, _) -> t
-| NFnCall (t, _) -> t
-| NDeclare (t, _, _) -> t
-| NConst (t, _, _) -> t
-| NArrDeclare (t, _, _, _) -> t
-| NEnumDef (t, _, _) -> t
-| NPtrDef (t, _, _) -> t
-| NCompDef (t, _, _) -> t
-| NIf (t, _) -> t
-| NCase (t, _, _) -> t
-| NWhile (t, _, _) -> t
-| NRepeat (t, _, _) -> t
-| NFor (t, _, _, _, _, _) -> t
-| NBreak t -> t
-| NContinue t -> t
-| NProc (t, _, _, _) -> t
-| NFunc (t, _, _, _, _) -> t
-| NCall (t, _, _) -> t
-| NReturn (t, _) -> t
-| NOutput (t, _) -> t
-| NInput (t, _) -> t
-| NOpenFile (t, _, _) -> t
-| NReadFile (t, _, _) -> t
-| NWriteFile (t, _, _) -> t
-| NCloseFile (t, _) -> t
-| NSeek (t, _, _) -> t
-| NGetRecord (t, _, _) -> t
-| NPutRecord (t, _, _) -> t
+| NInt t0 -> t0
+| NReal t0 -> t0
+| NBool t0 -> t0
+| NChar t0 -> t0
+| NStr t0 -> t0
+| NDate t0 -> t0
+| NNeg (t0, _) -> t0
+| NArith (t0, _, _) -> t0
+| NCmp (t0, _, _) -> t0
+| NLogic (t0, _, _) -> t0
+| NNot (t0, _) -> t0
+| NCat (t0, _, _) -> t0
+| NCast (t0, _, _) -> t0
+| NAccess (t0, _) -> t0
+| NAssign (t0, _, _) -> t0
+| NPtrAssign (t0, _, _) -> t0
+| NFnCall (t0, _) -> t0
+| NDeclare (t0, _, _) -> t0
+| NConst (t0, _, _) -> t0
+| NArrDeclare (t0, _, _, _) -> t0
+| NEnumDef (t0, _, _) -> t0
+| NPtrDef (t0, _, _) -> t0
+| NCompDef (t0, _, _) -> t0
+| NIf (t0, _) -> t0
+| NCase (t0, _, _) -> t0
+| NWhile (t0, _, _) -> t0
+| NRepeat (t0, _, _) -> t0
+| NFor (t0, _, _, _, _, _) -> t0
+| NBreak t0 -> t0
+| NContinue t0 -> t0
+| NProc (t0, _, _, _) -> t0
+| NFunc (t0, _, _, _, _) -> t0
+| NCall (t0, _, _) -> t0
+| NReturn (t0, _) -> t0
+| NOutput (t0, _) -> t0
+| NInput (t0, _) -> t0
+| NOpenFile (t0, _, _) -> t0
+| NReadFile (t0, _, _) -> t0
+| NWriteFile (t0, _, _) -> t0
+| NCloseFile (t0, _) -> t0
+| NSeek (t0, _, _) -> t0
+| NGetRecord (t0, _, _) -> t0
+| NPutRecord (t0, _, _) -> t0
 
 type spec_float =
 | S754_zero of bool
@@ -2984,7 +2976,7 @@ let div_half_even n0 d =
 
 let rec strip_trailing_zeros_rev r = match r with
 | [] -> []
-| c :: t -> if aeqb c '0' then strip_trailing_zeros_rev t else r
+| c :: t0 -> if aeqb c '0' then strip_trailing_zeros_rev t0 else r
 
 (** val rstrip0 : str -> str **)
 
@@ -3129,11 +3121,11 @@ let fmt_f6 = function
 let real_to_string x =
   match fmt_f6 x with
   | Some s ->
-    let t = rstrip0 s in
+    let t0 = rstrip0 s in
     Some
-    (match rev t with
-     | [] -> t
-     | c :: r -> if aeqb c '.' then rev r else t)
+    (match rev t0 with
+     | [] -> t0
+     | c :: r -> if aeqb c '.' then rev r else t0)
   | None -> None
 
 (** val real_output : real -> str option **)
@@ -3307,7 +3299,7 @@ let strtod_pfx s0 =
                     let r' =
                       match r with
                       | [] -> None
-                      | c :: t ->
+                      | c :: t0 ->
                         if aeqb c '('
                         then let rec go fuel u =
                                match fuel with
@@ -3321,7 +3313,7 @@ let strtod_pfx s0 =
                                     else if (||) (is_alnum x) (aeqb x '_')
                                          then go f v
                                          else None)
-                             in go (S (length t)) t
+                             in go (S (length t0)) t0
                         else None
                     in
                     { sr_val = S754_nan; sr_rest =
@@ -3360,18 +3352,18 @@ let strtod_pfx s0 =
                          let (p1, r2) =
                            match r1 with
                            | [] -> ((m1, Z0), r1)
-                           | c :: t ->
+                           | c :: t0 ->
                              if aeqb c '.'
-                             then take_hex t m1 Z0
+                             then take_hex t0 m1 Z0
                              else ((m1, Z0), r1)
                          in
                          let (m2, c2) = p1 in
                          let (e2, r3) =
                            match r2 with
                            | [] -> (Z0, r2)
-                           | c :: t ->
+                           | c :: t0 ->
                              if aeqb (to_lower c) 'p'
-                             then (match take_exponent t with
+                             then (match take_exponent t0 with
                                    | Some p2 -> p2
                                    | None -> (Z0, r2))
                              else (Z0, r2)
@@ -3407,8 +3399,10 @@ let strtod_pfx s0 =
                          let (fp, r2) =
                            match r1 with
                            | [] -> ([], r1)
-                           | c :: t ->
-                             if aeqb c '.' then take_digits t [] else ([], r1)
+                           | c :: t0 ->
+                             if aeqb c '.'
+                             then take_digits t0 []
+                             else ([], r1)
                          in
                          (match ip with
                           | [] ->
@@ -3420,9 +3414,9 @@ let strtod_pfx s0 =
                                let (e10, r3) =
                                  match r2 with
                                  | [] -> (Z0, r2)
-                                 | c :: t ->
+                                 | c :: t0 ->
                                    if aeqb (to_lower c) 'e'
-                                   then (match take_exponent t with
+                                   then (match take_exponent t0 with
                                          | Some p0 -> p0
                                          | None -> (Z0, r2))
                                    else (Z0, r2)
@@ -3438,9 +3432,9 @@ let strtod_pfx s0 =
                             let (e10, r3) =
                               match r2 with
                               | [] -> (Z0, r2)
-                              | c :: t ->
+                              | c :: t0 ->
                                 if aeqb (to_lower c) 'e'
-                                then (match take_exponent t with
+                                then (match take_exponent t0 with
                                       | Some p0 -> p0
                                       | None -> (Z0, r2))
                                 else (Z0, r2)
@@ -3472,7 +3466,7 @@ let strtod_pfx s0 =
                          let r' =
                            match r0 with
                            | [] -> None
-                           | c0 :: t ->
+                           | c0 :: t0 ->
                              if aeqb c0 '('
                              then let rec go fuel u =
                                     match fuel with
@@ -3487,7 +3481,7 @@ let strtod_pfx s0 =
                                                    (aeqb x '_')
                                               then go f v
                                               else None)
-                                  in go (S (length t)) t
+                                  in go (S (length t0)) t0
                              else None
                          in
                          { sr_val = S754_nan; sr_rest =
@@ -3526,18 +3520,18 @@ let strtod_pfx s0 =
                               let (p1, r2) =
                                 match r1 with
                                 | [] -> ((m1, Z0), r1)
-                                | c0 :: t ->
+                                | c0 :: t0 ->
                                   if aeqb c0 '.'
-                                  then take_hex t m1 Z0
+                                  then take_hex t0 m1 Z0
                                   else ((m1, Z0), r1)
                               in
                               let (m2, c2) = p1 in
                               let (e2, r3) =
                                 match r2 with
                                 | [] -> (Z0, r2)
-                                | c0 :: t ->
+                                | c0 :: t0 ->
                                   if aeqb (to_lower c0) 'p'
-                                  then (match take_exponent t with
+                                  then (match take_exponent t0 with
                                         | Some p2 -> p2
                                         | None -> (Z0, r2))
                                   else (Z0, r2)
@@ -3575,9 +3569,9 @@ let strtod_pfx s0 =
                               let (fp, r2) =
                                 match r1 with
                                 | [] -> ([], r1)
-                                | c0 :: t ->
+                                | c0 :: t0 ->
                                   if aeqb c0 '.'
-                                  then take_digits t []
+                                  then take_digits t0 []
                                   else ([], r1)
                               in
                               (match ip with
@@ -3590,9 +3584,9 @@ let strtod_pfx s0 =
                                     let (e10, r3) =
                                       match r2 with
                                       | [] -> (Z0, r2)
-                                      | c0 :: t ->
+                                      | c0 :: t0 ->
                                         if aeqb (to_lower c0) 'e'
-                                        then (match take_exponent t with
+                                        then (match take_exponent t0 with
                                               | Some p0 -> p0
                                               | None -> (Z0, r2))
                                         else (Z0, r2)
@@ -3608,9 +3602,9 @@ let strtod_pfx s0 =
                                  let (e10, r3) =
                                    match r2 with
                                    | [] -> (Z0, r2)
-                                   | c0 :: t ->
+                                   | c0 :: t0 ->
                                      if aeqb (to_lower c0) 'e'
-                                     then (match take_exponent t with
+                                     then (match take_exponent t0 with
                                            | Some p0 -> p0
                                            | None -> (Z0, r2))
                                      else (Z0, r2)
@@ -3642,7 +3636,7 @@ let strtod_pfx s0 =
                               let r' =
                                 match r0 with
                                 | [] -> None
-                                | c0 :: t ->
+                                | c0 :: t0 ->
                                   if aeqb c0 '('
                                   then let rec go fuel u =
                                          match fuel with
@@ -3657,7 +3651,7 @@ let strtod_pfx s0 =
                                                         (aeqb x '_')
                                                    then go f v
                                                    else None)
-                                       in go (S (length t)) t
+                                       in go (S (length t0)) t0
                                   else None
                               in
                               { sr_val = S754_nan; sr_rest =
@@ -3697,18 +3691,18 @@ let strtod_pfx s0 =
                                    let (p1, r2) =
                                      match r1 with
                                      | [] -> ((m1, Z0), r1)
-                                     | c0 :: t ->
+                                     | c0 :: t0 ->
                                        if aeqb c0 '.'
-                                       then take_hex t m1 Z0
+                                       then take_hex t0 m1 Z0
                                        else ((m1, Z0), r1)
                                    in
                                    let (m2, c2) = p1 in
                                    let (e2, r3) =
                                      match r2 with
                                      | [] -> (Z0, r2)
-                                     | c0 :: t ->
+                                     | c0 :: t0 ->
                                        if aeqb (to_lower c0) 'p'
-                                       then (match take_exponent t with
+                                       then (match take_exponent t0 with
                                              | Some p2 -> p2
                                              | None -> (Z0, r2))
                                        else (Z0, r2)
@@ -3750,9 +3744,9 @@ let strtod_pfx s0 =
                                    let (fp, r2) =
                                      match r1 with
                                      | [] -> ([], r1)
-                                     | c0 :: t ->
+                                     | c0 :: t0 ->
                                        if aeqb c0 '.'
-                                       then take_digits t []
+                                       then take_digits t0 []
                                        else ([], r1)
                                    in
                                    (match ip with
@@ -3766,9 +3760,9 @@ let strtod_pfx s0 =
                                          let (e10, r3) =
                                            match r2 with
                                            | [] -> (Z0, r2)
-                                           | c0 :: t ->
+                                           | c0 :: t0 ->
                                              if aeqb (to_lower c0) 'e'
-                                             then (match take_exponent t with
+                                             then (match take_exponent t0 with
                                                    | Some p0 -> p0
                                                    | None -> (Z0, r2))
                                              else (Z0, r2)
@@ -3785,9 +3779,9 @@ let strtod_pfx s0 =
                                       let (e10, r3) =
                                         match r2 with
                                         | [] -> (Z0, r2)
-                                        | c0 :: t ->
+                                        | c0 :: t0 ->
                                           if aeqb (to_lower c0) 'e'
-                                          then (match take_exponent t with
+                                          then (match take_exponent t0 with
                                                 | Some p0 -> p0
                                                 | None -> (Z0, r2))
                                           else (Z0, r2)
@@ -3818,7 +3812,7 @@ let strtod_pfx s0 =
                               let r' =
                                 match r0 with
                                 | [] -> None
-                                | c0 :: t ->
+                                | c0 :: t0 ->
                                   if aeqb c0 '('
                                   then let rec go fuel u =
                                          match fuel with
@@ -3833,7 +3827,7 @@ let strtod_pfx s0 =
                                                         (aeqb x '_')
                                                    then go f v
                                                    else None)
-                                       in go (S (length t)) t
+                                       in go (S (length t0)) t0
                                   else None
                               in
                               { sr_val = S754_nan; sr_rest =
@@ -3873,18 +3867,18 @@ let strtod_pfx s0 =
                                    let (p1, r2) =
                                      match r1 with
                                      | [] -> ((m1, Z0), r1)
-                                     | c0 :: t ->
+                                     | c0 :: t0 ->
                                        if aeqb c0 '.'
-                                       then take_hex t m1 Z0
+                                       then take_hex t0 m1 Z0
                                        else ((m1, Z0), r1)
                                    in
                                    let (m2, c2) = p1 in
                                    let (e2, r3) =
                                      match r2 with
                                      | [] -> (Z0, r2)
-                                     | c0 :: t ->
+                                     | c0 :: t0 ->
                                        if aeqb (to_lower c0) 'p'
-                                       then (match take_exponent t with
+                                       then (match take_exponent t0 with
                                              | Some p2 -> p2
                                              | None -> (Z0, r2))
                                        else (Z0, r2)
@@ -3926,9 +3920,9 @@ let strtod_pfx s0 =
                                    let (fp, r2) =
                                      match r1 with
                                      | [] -> ([], r1)
-                                     | c0 :: t ->
+                                     | c0 :: t0 ->
                                        if aeqb c0 '.'
-                                       then take_digits t []
+                                       then take_digits t0 []
                                        else ([], r1)
                                    in
                                    (match ip with
@@ -3942,9 +3936,9 @@ let strtod_pfx s0 =
                                          let (e10, r3) =
                                            match r2 with
                                            | [] -> (Z0, r2)
-                                           | c0 :: t ->
+                                           | c0 :: t0 ->
                                              if aeqb (to_lower c0) 'e'
-                                             then (match take_exponent t with
+                                             then (match take_exponent t0 with
                                                    | Some p0 -> p0
                                                    | None -> (Z0, r2))
                                              else (Z0, r2)
@@ -3961,9 +3955,9 @@ let strtod_pfx s0 =
                                       let (e10, r3) =
                                         match r2 with
                                         | [] -> (Z0, r2)
-                                        | c0 :: t ->
+                                        | c0 :: t0 ->
                                           if aeqb (to_lower c0) 'e'
-                                          then (match take_exponent t with
+                                          then (match take_exponent t0 with
                                                 | Some p0 -> p0
                                                 | None -> (Z0, r2))
                                           else (Z0, r2)
@@ -4099,7 +4093,7 @@ let adv s =
 
 let next_is s n0 ty =
   match nth_error s.p_toks n0 with
-  | Some t -> tt_eqb t.tt ty
+  | Some t0 -> tt_eqb t0.tt ty
   | None -> false
 
 (** val is_t : pst -> ttype -> bool **)
@@ -4112,7 +4106,7 @@ let is_t s ty =
 let pbind m0 k s =
   match m0 s with
   | POk (a, s') -> k a s'
-  | PFail (kd, t, s') -> PFail (kd, t, s')
+  | PFail (kd, t0, s') -> PFail (kd, t0, s')
   | PFuel -> PFuel
 
 (** val pret : 'a1 -> 'a1 p **)
@@ -4127,8 +4121,8 @@ let perr s =
 
 (** val pped : token -> 'a1 p **)
 
-let pped t s =
-  PFail (LexPedantic, t, s)
+let pped t0 s =
+  PFail (LexPedantic, t0, s)
 
 (** val padv : unit p **)
 
@@ -4170,10 +4164,10 @@ let rec binloop n0 isop sub0 mk left s =
   match n0 with
   | O -> PFuel
   | S k ->
-    let t = cur s in
-    if isop t.tt
+    let t0 = cur s in
+    if isop t0.tt
     then (match sub0 (adv s) with
-          | POk (r, s') -> binloop k isop sub0 mk (mk t left r) s'
+          | POk (r, s') -> binloop k isop sub0 mk (mk t0 left r) s'
           | x -> x)
     else POk (left, s)
 
@@ -4226,13 +4220,13 @@ let op_mul = function
 
 (** val int_literal_ok : token -> bool **)
 
-let int_literal_ok t =
-  Z.leb (digits_to_z t.tval) int64_max
+let int_literal_ok t0 =
+  Z.leb (digits_to_z t0.tval) int64_max
 
 (** val real_literal_ok : token -> bool **)
 
-let real_literal_ok t =
-  match stod_literal t.tval with
+let real_literal_ok t0 =
+  match stod_literal t0.tval with
   | Some _ -> true
   | None -> false
 
@@ -4260,10 +4254,10 @@ let block_terminator = function
 
 let rec colon_on_line = function
 | [] -> false
-| t :: r ->
-  if tt_eqb t.tt TCOLON
+| t0 :: r ->
+  if tt_eqb t0.tt TCOLON
   then true
-  else if tt_eqb t.tt TLINE_END then false else colon_on_line r
+  else if tt_eqb t0.tt TLINE_END then false else colon_on_line r
 
 type btype =
 | BMain
@@ -4277,22 +4271,22 @@ type pacc = { pa_names : str list; pa_types : token list;
 (** val literal_node : pst -> node pres option **)
 
 let literal_node s =
-  let t = cur s in
-  (match t.tt with
+  let t0 = cur s in
+  (match t0.tt with
    | TINTEGER ->
      Some
-       (if int_literal_ok t
-        then POk ((NInt t), (adv s))
-        else PFail (LexSyntax, t, s))
+       (if int_literal_ok t0
+        then POk ((NInt t0), (adv s))
+        else PFail (LexSyntax, t0, s))
    | TREAL ->
      Some
-       (if real_literal_ok t
-        then POk ((NReal t), (adv s))
-        else PFail (LexSyntax, t, s))
-   | TCHAR -> Some (POk ((NChar t), (adv s)))
-   | TSTRING -> Some (POk ((NStr t), (adv s)))
-   | TTRUE -> Some (POk ((NBool t), (adv s)))
-   | TFALSE -> Some (POk ((NBool t), (adv s)))
+       (if real_literal_ok t0
+        then POk ((NReal t0), (adv s))
+        else PFail (LexSyntax, t0, s))
+   | TCHAR -> Some (POk ((NChar t0), (adv s)))
+   | TSTRING -> Some (POk ((NStr t0), (adv s)))
+   | TTRUE -> Some (POk ((NBool t0), (adv s)))
+   | TFALSE -> Some (POk ((NBool t0), (adv s)))
    | _ -> None)
 
 (** val parse_block : bool -> nat -> btype -> node list p **)
@@ -4314,9 +4308,9 @@ let parse_block pedantic =
   | S f ->
     (fun s ->
       if is_t s TNOT
-      then let t = cur s in
+      then let t0 = cur s in
            pbind padv (fun _ ->
-             pbind (parse_comparison f) (fun e -> pret (NNot (t, e)))) s
+             pbind (parse_comparison f) (fun e -> pret (NNot (t0, e)))) s
       else pbind (parse_strexpr f) (fun l ->
              binloop f op_cmp (parse_strexpr f) (fun x x0 x1 -> NCmp (x, x0,
                x1)) l) s)
@@ -4340,20 +4334,20 @@ let parse_block pedantic =
   | S f ->
     (fun s ->
       if is_t s TMINUS
-      then let t = cur s in
+      then let t0 = cur s in
            pbind padv (fun _ ->
-             pbind (parse_atom f) (fun a -> pret (NNeg (t, a)))) s
+             pbind (parse_atom f) (fun a -> pret (NNeg (t0, a)))) s
       else parse_atom f s)
   and parse_atom = function
   | O -> pfuel
   | S f ->
     (fun s ->
-      let t = cur s in
+      let t0 = cur s in
       (match literal_node s with
        | Some r -> r
        | None ->
-         (match t.tt with
-          | TDATE -> POk ((NDate t), (adv s))
+         (match t0.tt with
+          | TDATE -> POk ((NDate t0), (adv s))
           | TLPAREN ->
             pbind padv (fun _ ->
               pbind (parse_eval f) (fun e ->
@@ -4378,31 +4372,31 @@ let parse_block pedantic =
                              else perr s3
                         else pbind (parse_eval f) (fun e ->
                                pret (NAssign (at_, e, r))) s2
-                   else POk ((NAccess (t, r)), s1)) s
+                   else POk ((NAccess (t0, r)), s1)) s
           | TDATA_TYPE -> parse_cast f s
           | _ -> perr s)))
   and parse_moddiv = function
   | O -> pfuel
   | S f ->
-    pbind pcur (fun t ->
+    pbind pcur (fun t0 ->
       pbind padv (fun _ ->
         pbind padv (fun _ ->
           pbind (parse_eval f) (fun a ->
             pbind (expect TCOMMA) (fun _ ->
               pbind (parse_eval f) (fun b ->
-                pbind (expect TRPAREN) (fun _ -> pret (NArith (t, a, b)))))))))
+                pbind (expect TRPAREN) (fun _ -> pret (NArith (t0, a, b)))))))))
   and parse_cast = function
   | O -> pfuel
   | S f ->
-    pbind pcur (fun t ->
+    pbind pcur (fun t0 ->
       if pedantic
-      then pped t
-      else (match psc_type_of_word t.tval with
+      then pped t0
+      else (match psc_type_of_word t0.tval with
             | Some k ->
               pbind padv (fun _ ->
                 pbind (expect TLPAREN) (fun _ ->
                   pbind (parse_eval f) (fun e ->
-                    pbind (expect TRPAREN) (fun _ -> pret (NCast (t, e, k))))))
+                    pbind (expect TRPAREN) (fun _ -> pret (NCast (t0, e, k))))))
             | None -> perr))
   and parse_args fuel acc =
     match fuel with
@@ -4423,10 +4417,10 @@ let parse_block pedantic =
   and parse_fncall = function
   | O -> pfuel
   | S f ->
-    pbind pcur (fun t ->
+    pbind pcur (fun t0 ->
       pbind padv (fun _ ->
         pbind padv (fun _ ->
-          pbind (parse_arglist f) (fun args -> pret (NFnCall (t, args))))))
+          pbind (parse_arglist f) (fun args -> pret (NFnCall (t0, args))))))
   and parse_indices fuel acc =
     match fuel with
     | O -> pfuel
@@ -4440,8 +4434,8 @@ let parse_block pedantic =
     | O -> pfuel
     | S f ->
       (fun s ->
-        let t = cur s in
-        (match t.tt with
+        let t0 = cur s in
+        (match t0.tt with
          | TINTEGER -> POk (r, s)
          | TREAL -> POk (r, s)
          | TCHAR -> POk (r, s)
@@ -4477,28 +4471,28 @@ let parse_block pedantic =
          | TARRAY -> POk (r, s)
          | TLSQRBRACKET ->
            pbind (parse_indices f []) (fun idx ->
-             parse_resolver_tail f (RIndex (t, r, idx))) (adv s)
-         | TCARET -> parse_resolver_tail f (RDeref (t, r)) (adv s)
+             parse_resolver_tail f (RIndex (t0, r, idx))) (adv s)
+         | TCARET -> parse_resolver_tail f (RDeref (t0, r)) (adv s)
          | TPERIOD ->
            let s1 = adv s in
-           parse_resolver_tail f (RField (t, r, (cur s1))) (adv s1)
+           parse_resolver_tail f (RField (t0, r, (cur s1))) (adv s1)
          | _ -> POk (r, s)))
   and parse_resolver = function
   | O -> pfuel
   | S f ->
-    pbind pcur (fun t ->
-      pbind padv (fun _ -> parse_resolver_tail f (RSimple t)))
+    pbind pcur (fun t0 ->
+      pbind padv (fun _ -> parse_resolver_tail f (RSimple t0)))
   and parse_ids fuel acc =
     match fuel with
     | O -> pfuel
     | S f ->
       (fun s ->
         if is_t s TIDENTIFIER
-        then let t = cur s in
+        then let t0 = cur s in
              let s1 = adv s in
              if is_t s1 TCOMMA
-             then parse_ids f (t :: acc) (adv s1)
-             else POk ((rev (t :: acc)), s1)
+             then parse_ids f (t0 :: acc) (adv s1)
+             else POk ((rev (t0 :: acc)), s1)
         else perr s)
   and parse_bounds fuel acc =
     match fuel with
@@ -4580,7 +4574,7 @@ let parse_block pedantic =
   and parse_type = function
   | O -> pfuel
   | S f ->
-    pbind pcur (fun t ->
+    pbind pcur (fun t0 ->
       pbind padv (fun _ ->
         pbind skip_nl (fun _ s ->
           if negb (is_t s TIDENTIFIER)
@@ -4592,16 +4586,16 @@ let parse_block pedantic =
                     then perr s1
                     else pbind skip_nl (fun _ ->
                            pbind (parse_comp_body f []) (fun body ->
-                             pret (NCompDef (t, id, body)))) (adv s1)
+                             pret (NCompDef (t0, id, body)))) (adv s1)
                else let s2 = adv s1 in
                     if is_t s2 TCARET
                     then let s3 = adv s2 in
                          if is_type_tok s3
-                         then POk ((NPtrDef (t, id, (cur s3))), (adv s3))
+                         then POk ((NPtrDef (t0, id, (cur s3))), (adv s3))
                          else perr s3
                     else if is_t s2 TLPAREN
                          then pbind (parse_enum_vals f []) (fun vs ->
-                                pret (NEnumDef (t, id, vs))) (adv s2)
+                                pret (NEnumDef (t0, id, vs))) (adv s2)
                          else perr s2)))
   and parse_if_tail fuel acc =
     match fuel with
@@ -4626,14 +4620,14 @@ let parse_block pedantic =
   and parse_if = function
   | O -> pfuel
   | S f ->
-    pbind pcur (fun t ->
+    pbind pcur (fun t0 ->
       pbind padv (fun _ ->
         pbind (parse_eval f) (fun c ->
           pbind skip_nl (fun _ ->
             pbind (expect TTHEN) (fun _ ->
               pbind (parse_block0 f BOther) (fun b ->
                 pbind (parse_if_tail f (((Some c), b) :: [])) (fun comps ->
-                  pret (NIf (t, comps)))))))))
+                  pret (NIf (t0, comps)))))))))
   and parse_case_clauses fuel acc =
     match fuel with
     | O -> pfuel
@@ -4662,7 +4656,7 @@ let parse_block pedantic =
   and parse_case = function
   | O -> pfuel
   | S f ->
-    pbind pcur (fun t ->
+    pbind pcur (fun t0 ->
       pbind padv (fun _ ->
         pbind (expect TOF) (fun _ s ->
           if negb (is_t s TIDENTIFIER)
@@ -4671,30 +4665,30 @@ let parse_block pedantic =
                pbind padv (fun _ ->
                  pbind skip_nl (fun _ ->
                    pbind (parse_case_clauses f []) (fun cs ->
-                     pret (NCase (t, (NAccess (id, (RSimple id))), cs))))) s)))
+                     pret (NCase (t0, (NAccess (id, (RSimple id))), cs))))) s)))
   and parse_while = function
   | O -> pfuel
   | S f ->
-    pbind pcur (fun t ->
+    pbind pcur (fun t0 ->
       pbind padv (fun _ ->
         pbind (parse_eval f) (fun c ->
           pbind skip_nl (fun _ ->
             pbind (fun s -> POk ((), (if is_t s TDO then adv s else s)))
               (fun _ ->
               pbind (parse_block0 f BOther) (fun b ->
-                pbind (expect TENDWHILE) (fun _ -> pret (NWhile (t, c, b)))))))))
+                pbind (expect TENDWHILE) (fun _ -> pret (NWhile (t0, c, b)))))))))
   and parse_repeat = function
   | O -> pfuel
   | S f ->
-    pbind pcur (fun t ->
+    pbind pcur (fun t0 ->
       pbind padv (fun _ ->
         pbind (parse_block0 f BOther) (fun b ->
           pbind (expect TUNTIL) (fun _ ->
-            pbind (parse_eval f) (fun c -> pret (NRepeat (t, c, b)))))))
+            pbind (parse_eval f) (fun c -> pret (NRepeat (t0, c, b)))))))
   and parse_for = function
   | O -> pfuel
   | S f ->
-    pbind pcur (fun t ->
+    pbind pcur (fun t0 ->
       pbind padv (fun _ s ->
         if negb (is_t s TIDENTIFIER)
         then perr s
@@ -4714,10 +4708,10 @@ let parse_block pedantic =
                            pbind (expect TNEXT) (fun _ s2 ->
                              if is_t s2 TIDENTIFIER
                              then if str_eqb (cur s2).tval it.tval
-                                  then POk ((NFor (t, it, a, b, st0, body)),
+                                  then POk ((NFor (t0, it, a, b, st0, body)),
                                          (adv s2))
                                   else perr s2
-                             else POk ((NFor (t, it, a, b, st0, body)), s2)))))))))
+                             else POk ((NFor (t0, it, a, b, st0, body)), s2)))))))))
                s))
   and parse_params fuel a =
     match fuel with
@@ -4792,7 +4786,7 @@ let parse_block pedantic =
   and parse_procedure = function
   | O -> pfuel
   | S f ->
-    pbind pcur (fun t ->
+    pbind pcur (fun t0 ->
       pbind padv (fun _ s ->
         if negb (is_t s TIDENTIFIER)
         then perr s
@@ -4801,11 +4795,11 @@ let parse_block pedantic =
                pbind (parse_paramlist f) (fun ps ->
                  pbind (parse_block0 f BOther) (fun b ->
                    pbind (expect TENDPROCEDURE) (fun _ ->
-                     pret (NProc (t, nm, ps, b)))))) s))
+                     pret (NProc (t0, nm, ps, b)))))) s))
   and parse_function = function
   | O -> pfuel
   | S f ->
-    pbind pcur (fun t ->
+    pbind pcur (fun t0 ->
       pbind padv (fun _ s ->
         if negb (is_t s TIDENTIFIER)
         then perr s
@@ -4820,11 +4814,11 @@ let parse_block pedantic =
                           pbind padv (fun _ ->
                             pbind (parse_block0 f BOther) (fun b ->
                               pbind (expect TENDFUNCTION) (fun _ ->
-                                pret (NFunc (t, nm, ps, b, rt))))) s1)))) s))
+                                pret (NFunc (t0, nm, ps, b, rt))))) s1)))) s))
   and parse_call = function
   | O -> pfuel
   | S f ->
-    pbind pcur (fun t ->
+    pbind pcur (fun t0 ->
       pbind padv (fun _ s ->
         if negb (is_t s TIDENTIFIER)
         then perr s
@@ -4832,8 +4826,8 @@ let parse_block pedantic =
              let s1 = adv s in
              if is_t s1 TLPAREN
              then pbind (parse_arglist f) (fun args ->
-                    pret (NCall (t, nm, args))) (adv s1)
-             else POk ((NCall (t, nm, [])), s1)))
+                    pret (NCall (t0, nm, args))) (adv s1)
+             else POk ((NCall (t0, nm, [])), s1)))
   and parse_output_tail fuel acc =
     match fuel with
     | O -> pfuel
@@ -4848,8 +4842,8 @@ let parse_block pedantic =
   | O -> pfuel
   | S f ->
     (fun s ->
-      let t = cur s in
-      (match t.tt with
+      let t0 = cur s in
+      (match t0.tt with
        | TDECLARE -> parse_declare f s
        | TCONSTANT -> parse_const f s
        | TTYPE -> parse_type f s
@@ -4858,71 +4852,71 @@ let parse_block pedantic =
        | TWHILE -> parse_while f s
        | TREPEAT -> parse_repeat f s
        | TFOR -> parse_for f s
-       | TBREAK -> POk ((NBreak t), (adv s))
-       | TCONTINUE -> POk ((NContinue t), (adv s))
+       | TBREAK -> POk ((NBreak t0), (adv s))
+       | TCONTINUE -> POk ((NContinue t0), (adv s))
        | TCALL -> parse_call f s
        | TRETURN ->
          pbind padv (fun _ ->
-           pbind (parse_eval f) (fun e -> pret (NReturn (t, e)))) s
+           pbind (parse_eval f) (fun e -> pret (NReturn (t0, e)))) s
        | TOUTPUT ->
          pbind padv (fun _ ->
            pbind (parse_eval f) (fun e ->
              pbind (parse_output_tail f (e :: [])) (fun es ->
-               pret (NOutput (t, es))))) s
+               pret (NOutput (t0, es))))) s
        | TINPUT ->
          pbind padv (fun _ s1 ->
            if is_t s1 TIDENTIFIER
-           then pbind (parse_resolver f) (fun r -> pret (NInput (t, r))) s1
+           then pbind (parse_resolver f) (fun r -> pret (NInput (t0, r))) s1
            else perr s1) s
        | TOPENFILE ->
          pbind padv (fun _ ->
            pbind (parse_strexpr f) (fun fn ->
              pbind (expect TFOR) (fun _ s1 ->
                match (cur s1).tt with
-               | TREAD -> POk ((NOpenFile (t, fn, FRead)), (adv s1))
-               | TWRITE -> POk ((NOpenFile (t, fn, FWrite)), (adv s1))
-               | TAPPEND -> POk ((NOpenFile (t, fn, FAppend)), (adv s1))
-               | TRANDOM -> POk ((NOpenFile (t, fn, FRandom)), (adv s1))
+               | TREAD -> POk ((NOpenFile (t0, fn, FRead)), (adv s1))
+               | TWRITE -> POk ((NOpenFile (t0, fn, FWrite)), (adv s1))
+               | TAPPEND -> POk ((NOpenFile (t0, fn, FAppend)), (adv s1))
+               | TRANDOM -> POk ((NOpenFile (t0, fn, FRandom)), (adv s1))
                | _ -> perr s1))) s
        | TREADFILE ->
          pbind padv (fun _ ->
            pbind (parse_strexpr f) (fun fn ->
              pbind (expect TCOMMA) (fun _ s1 ->
                if is_t s1 TIDENTIFIER
-               then POk ((NReadFile (t, fn, (cur s1))), (adv s1))
+               then POk ((NReadFile (t0, fn, (cur s1))), (adv s1))
                else perr s1))) s
        | TWRITEFILE ->
          pbind padv (fun _ ->
            pbind (parse_strexpr f) (fun fn ->
              pbind (expect TCOMMA) (fun _ ->
-               pbind (parse_eval f) (fun d -> pret (NWriteFile (t, fn, d))))))
+               pbind (parse_eval f) (fun d -> pret (NWriteFile (t0, fn, d))))))
            s
        | TCLOSEFILE ->
          pbind padv (fun _ ->
-           pbind (parse_strexpr f) (fun fn -> pret (NCloseFile (t, fn)))) s
+           pbind (parse_strexpr f) (fun fn -> pret (NCloseFile (t0, fn)))) s
        | TREAD ->
          pbind padv (fun _ s1 ->
            if is_t s1 TIDENTIFIER
-           then pbind (parse_resolver f) (fun r -> pret (NInput (t, r))) s1
+           then pbind (parse_resolver f) (fun r -> pret (NInput (t0, r))) s1
            else perr s1) s
        | TSEEK ->
          pbind padv (fun _ ->
            pbind (parse_strexpr f) (fun fn ->
              pbind (expect TCOMMA) (fun _ ->
-               pbind (parse_eval f) (fun a -> pret (NSeek (t, fn, a)))))) s
+               pbind (parse_eval f) (fun a -> pret (NSeek (t0, fn, a)))))) s
        | TGETRECORD ->
          pbind padv (fun _ ->
            pbind (parse_strexpr f) (fun fn ->
              pbind (expect TCOMMA) (fun _ s1 ->
                if is_t s1 TIDENTIFIER
-               then POk ((NGetRecord (t, fn, (cur s1))), (adv s1))
+               then POk ((NGetRecord (t0, fn, (cur s1))), (adv s1))
                else perr s1))) s
        | TPUTRECORD ->
          pbind padv (fun _ ->
            pbind (parse_strexpr f) (fun fn ->
              pbind (expect TCOMMA) (fun _ s1 ->
                if is_t s1 TIDENTIFIER
-               then POk ((NPutRecord (t, fn, (cur s1))), (adv s1))
+               then POk ((NPutRecord (t0, fn, (cur s1))), (adv s1))
                else perr s1))) s
        | _ -> parse_eval f s))
   and parse_block_loop fuel bt acc =
@@ -4930,8 +4924,8 @@ let parse_block pedantic =
     | O -> pfuel
     | S f ->
       pbind skip_nl (fun _ s ->
-        let t = cur s in
-        if block_terminator t.tt
+        let t0 = cur s in
+        if block_terminator t0.tt
         then POk ((rev acc), s)
         else if match bt with
                 | BCase ->
@@ -4939,7 +4933,7 @@ let parse_block pedantic =
                 | _ -> false
              then POk ((rev acc), s)
              else let pn =
-                    match t.tt with
+                    match t0.tt with
                     | TPROCEDURE ->
                       (match bt with
                        | BMain -> parse_procedure f
@@ -4988,6 +4982,63 @@ let parse_program pedantic ts =
   pbind (parse_block pedantic (parse_fuel ts) BMain) (fun b s ->
     if is_t s TEXPRESSION_END then POk (b, s) else perr s) { p_toks = ts;
     p_warns = [] }
+
+module PositiveMap =
+ struct
+  type key = positive
+
+  type 'a tree =
+  | Leaf
+  | Node of 'a tree * 'a option * 'a tree
+
+  type 'a t = 'a tree
+
+  (** val empty : 'a1 t **)
+
+  let empty =
+    Leaf
+
+  (** val find : key -> 'a1 t -> 'a1 option **)
+
+  let rec find i = function
+  | Leaf -> None
+  | Node (l, o, r) ->
+    (match i with
+     | XI ii -> find ii r
+     | XO ii -> find ii l
+     | XH -> o)
+
+  (** val add : key -> 'a1 -> 'a1 t -> 'a1 t **)
+
+  let rec add i v = function
+  | Leaf ->
+    (match i with
+     | XI ii -> Node (Leaf, None, (add ii v Leaf))
+     | XO ii -> Node ((add ii v Leaf), None, Leaf)
+     | XH -> Node (Leaf, (Some v), Leaf))
+  | Node (l, o, r) ->
+    (match i with
+     | XI ii -> Node (l, o, (add ii v r))
+     | XO ii -> Node ((add ii v l), o, r)
+     | XH -> Node (l, (Some v), r))
+ end
+
+type 'a nmap = 'a PositiveMap.t
+
+(** val nm_empty : 'a1 nmap **)
+
+let nm_empty =
+  PositiveMap.empty
+
+(** val nm_get : n -> 'a1 nmap -> 'a1 option **)
+
+let nm_get k m0 =
+  PositiveMap.find (N.succ_pos k) m0
+
+(** val nm_put : n -> 'a1 -> 'a1 nmap -> 'a1 nmap **)
+
+let nm_put k v m0 =
+  PositiveMap.add (N.succ_pos k) v m0
 
 type dtype = { dk : dkind; dname : str option }
 
@@ -5070,7 +5121,8 @@ type ctx = { x_parent : n option; x_name : str; x_vars : (str * n) list;
              x_arrs : (str * n) list; x_enums : (str * str list) list;
              x_ptrs : (str * dtype) list; x_comps : (str * block) list;
              x_isfun : bool; x_isrec : bool; x_rettype : dtype;
-             x_retval : result option; x_switch : (z * z) option }
+             x_retval : result option; x_switch : (z * z) option;
+             x_depth : nat }
 
 type pdef = { pd_params : ((str * dtype) * bool) list; pd_body : block }
 
@@ -5094,8 +5146,8 @@ type ecls =
 type diag = { d_kind : dkindg; d_line : z; d_col : z; d_cls : ecls;
               d_trace : ((str * z) * z) list }
 
-type st = { s_next : n; s_cells : (n * cell) list; s_arrs : (n * arr) list;
-            s_ctxs : (n * ctx) list; s_procs : (str * pdef) list;
+type st = { s_next : n; s_cells : cell nmap; s_arrs : arr nmap;
+            s_ctxs : ctx nmap; s_procs : (str * pdef) list;
             s_funcs : (str * fdef) list; s_out : str list; s_in : str;
             s_fs : (str * str) list; s_files : ofile list; s_steps : 
             z; s_cellcount : z; s_depth : z; s_rand : z list }
@@ -5185,7 +5237,7 @@ let set_next n0 s =
     s_fs = s.s_fs; s_files = s.s_files; s_steps = s.s_steps; s_cellcount =
     s.s_cellcount; s_depth = s.s_depth; s_rand = s.s_rand }
 
-(** val set_cells : (n * cell) list -> st -> st **)
+(** val set_cells : cell nmap -> st -> st **)
 
 let set_cells v s =
   { s_next = s.s_next; s_cells = v; s_arrs = s.s_arrs; s_ctxs = s.s_ctxs;
@@ -5193,7 +5245,7 @@ let set_cells v s =
     s_fs = s.s_fs; s_files = s.s_files; s_steps = s.s_steps; s_cellcount =
     s.s_cellcount; s_depth = s.s_depth; s_rand = s.s_rand }
 
-(** val set_arrs : (n * arr) list -> st -> st **)
+(** val set_arrs : arr nmap -> st -> st **)
 
 let set_arrs v s =
   { s_next = s.s_next; s_cells = s.s_cells; s_arrs = v; s_ctxs = s.s_ctxs;
@@ -5201,7 +5253,7 @@ let set_arrs v s =
     s_fs = s.s_fs; s_files = s.s_files; s_steps = s.s_steps; s_cellcount =
     s.s_cellcount; s_depth = s.s_depth; s_rand = s.s_rand }
 
-(** val set_ctxs : (n * ctx) list -> st -> st **)
+(** val set_ctxs : ctx nmap -> st -> st **)
 
 let set_ctxs v s =
   { s_next = s.s_next; s_cells = s.s_cells; s_arrs = s.s_arrs; s_ctxs = v;
@@ -5297,7 +5349,7 @@ let fresh s =
 (** val get_cell : n -> cell m **)
 
 let get_cell id s =
-  match assoc_n id s.s_cells with
+  match nm_get id s.s_cells with
   | Some c -> ((Ok c), s)
   | None ->
     ((Fail (FCrash
@@ -5307,12 +5359,12 @@ let get_cell id s =
 (** val put_cell : n -> cell -> unit m **)
 
 let put_cell id c =
-  modify (fun s -> set_cells (update_n id c s.s_cells) s)
+  modify (fun s -> set_cells (nm_put id c s.s_cells) s)
 
 (** val get_arr : n -> arr m **)
 
 let get_arr id s =
-  match assoc_n id s.s_arrs with
+  match nm_get id s.s_arrs with
   | Some a -> ((Ok a), s)
   | None ->
     ((Fail (FCrash
@@ -5322,12 +5374,12 @@ let get_arr id s =
 (** val put_arr : n -> arr -> unit m **)
 
 let put_arr id a =
-  modify (fun s -> set_arrs (update_n id a s.s_arrs) s)
+  modify (fun s -> set_arrs (nm_put id a s.s_arrs) s)
 
 (** val get_ctx : n -> ctx m **)
 
 let get_ctx id s =
-  match assoc_n id s.s_ctxs with
+  match nm_get id s.s_ctxs with
   | Some c -> ((Ok c), s)
   | None ->
     ((Fail (FCrash
@@ -5337,7 +5389,7 @@ let get_ctx id s =
 (** val put_ctx : n -> ctx -> unit m **)
 
 let put_ctx id c =
-  modify (fun s -> set_ctxs (update_n id c s.s_ctxs) s)
+  modify (fun s -> set_ctxs (nm_put id c s.s_ctxs) s)
 
 (** val upd_ctx : n -> (ctx -> ctx) -> unit m **)
 
@@ -5357,7 +5409,7 @@ let ctx_with_vars v c =
   { x_parent = c.x_parent; x_name = c.x_name; x_vars = v; x_arrs = c.x_arrs;
     x_enums = c.x_enums; x_ptrs = c.x_ptrs; x_comps = c.x_comps; x_isfun =
     c.x_isfun; x_isrec = c.x_isrec; x_rettype = c.x_rettype; x_retval =
-    c.x_retval; x_switch = c.x_switch }
+    c.x_retval; x_switch = c.x_switch; x_depth = c.x_depth }
 
 (** val ctx_with_arrs : (str * n) list -> ctx -> ctx **)
 
@@ -5365,7 +5417,7 @@ let ctx_with_arrs v c =
   { x_parent = c.x_parent; x_name = c.x_name; x_vars = c.x_vars; x_arrs = v;
     x_enums = c.x_enums; x_ptrs = c.x_ptrs; x_comps = c.x_comps; x_isfun =
     c.x_isfun; x_isrec = c.x_isrec; x_rettype = c.x_rettype; x_retval =
-    c.x_retval; x_switch = c.x_switch }
+    c.x_retval; x_switch = c.x_switch; x_depth = c.x_depth }
 
 (** val ctx_with_enums : (str * str list) list -> ctx -> ctx **)
 
@@ -5373,7 +5425,7 @@ let ctx_with_enums v c =
   { x_parent = c.x_parent; x_name = c.x_name; x_vars = c.x_vars; x_arrs =
     c.x_arrs; x_enums = v; x_ptrs = c.x_ptrs; x_comps = c.x_comps; x_isfun =
     c.x_isfun; x_isrec = c.x_isrec; x_rettype = c.x_rettype; x_retval =
-    c.x_retval; x_switch = c.x_switch }
+    c.x_retval; x_switch = c.x_switch; x_depth = c.x_depth }
 
 (** val ctx_with_ptrs : (str * dtype) list -> ctx -> ctx **)
 
@@ -5381,7 +5433,7 @@ let ctx_with_ptrs v c =
   { x_parent = c.x_parent; x_name = c.x_name; x_vars = c.x_vars; x_arrs =
     c.x_arrs; x_enums = c.x_enums; x_ptrs = v; x_comps = c.x_comps; x_isfun =
     c.x_isfun; x_isrec = c.x_isrec; x_rettype = c.x_rettype; x_retval =
-    c.x_retval; x_switch = c.x_switch }
+    c.x_retval; x_switch = c.x_switch; x_depth = c.x_depth }
 
 (** val ctx_with_comps : (str * block) list -> ctx -> ctx **)
 
@@ -5389,7 +5441,7 @@ let ctx_with_comps v c =
   { x_parent = c.x_parent; x_name = c.x_name; x_vars = c.x_vars; x_arrs =
     c.x_arrs; x_enums = c.x_enums; x_ptrs = c.x_ptrs; x_comps = v; x_isfun =
     c.x_isfun; x_isrec = c.x_isrec; x_rettype = c.x_rettype; x_retval =
-    c.x_retval; x_switch = c.x_switch }
+    c.x_retval; x_switch = c.x_switch; x_depth = c.x_depth }
 
 (** val ctx_with_retval : result option -> ctx -> ctx **)
 
@@ -5397,7 +5449,7 @@ let ctx_with_retval v c =
   { x_parent = c.x_parent; x_name = c.x_name; x_vars = c.x_vars; x_arrs =
     c.x_arrs; x_enums = c.x_enums; x_ptrs = c.x_ptrs; x_comps = c.x_comps;
     x_isfun = c.x_isfun; x_isrec = c.x_isrec; x_rettype = c.x_rettype;
-    x_retval = v; x_switch = c.x_switch }
+    x_retval = v; x_switch = c.x_switch; x_depth = c.x_depth }
 
 (** val ctx_with_switch : (z * z) option -> ctx -> ctx **)
 
@@ -5405,17 +5457,21 @@ let ctx_with_switch v c =
   { x_parent = c.x_parent; x_name = c.x_name; x_vars = c.x_vars; x_arrs =
     c.x_arrs; x_enums = c.x_enums; x_ptrs = c.x_ptrs; x_comps = c.x_comps;
     x_isfun = c.x_isfun; x_isrec = c.x_isrec; x_rettype = c.x_rettype;
-    x_retval = c.x_retval; x_switch = v }
+    x_retval = c.x_retval; x_switch = v; x_depth = c.x_depth }
 
 (** val new_ctx : n option -> str -> bool -> bool -> dtype -> n m **)
 
 let new_ctx parent name isfun isrec rett =
-  bind fresh (fun id ->
-    bind
-      (put_ctx id { x_parent = parent; x_name = name; x_vars = []; x_arrs =
-        []; x_enums = []; x_ptrs = []; x_comps = []; x_isfun = isfun;
-        x_isrec = isrec; x_rettype = rett; x_retval = None; x_switch = None })
-      (fun _ -> ret id))
+  bind
+    (match parent with
+     | Some p0 -> bind (get_ctx p0) (fun pc -> ret (S pc.x_depth))
+     | None -> ret O) (fun d ->
+    bind fresh (fun id ->
+      bind
+        (put_ctx id { x_parent = parent; x_name = name; x_vars = []; x_arrs =
+          []; x_enums = []; x_ptrs = []; x_comps = []; x_isfun = isfun;
+          x_isrec = isrec; x_rettype = rett; x_retval = None; x_switch =
+          None; x_depth = d }) (fun _ -> ret id)))
 
 (** val emit : str -> unit m **)
 
@@ -5442,8 +5498,8 @@ let rec root_of_aux fuel id =
 
 (** val root_of : n -> n m **)
 
-let root_of id s =
-  root_of_aux (S (length s.s_ctxs)) id s
+let root_of id =
+  bind (get_ctx id) (fun c -> root_of_aux (S c.x_depth) id)
 
 (** val nonrec_ancestor_aux : nat -> n -> n m **)
 
@@ -5464,8 +5520,8 @@ let rec nonrec_ancestor_aux fuel id =
 
 (** val nonrec_ancestor : n -> n m **)
 
-let nonrec_ancestor id s =
-  nonrec_ancestor_aux (S (length s.s_ctxs)) id s
+let nonrec_ancestor id =
+  bind (get_ctx id) (fun c -> nonrec_ancestor_aux (S c.x_depth) id)
 
 (** val on_chain_aux : nat -> n -> n -> bool m **)
 
@@ -5484,8 +5540,8 @@ let rec on_chain_aux fuel id target =
 
 (** val on_chain : n -> n -> bool m **)
 
-let on_chain id target s =
-  on_chain_aux (S (length s.s_ctxs)) id target s
+let on_chain id target =
+  bind (get_ctx id) (fun c -> on_chain_aux (S c.x_depth) id target)
 
 (** val trace_aux : nat -> n option -> ((str * z) * z) list m **)
 
@@ -5505,12 +5561,12 @@ let rec trace_aux fuel id =
 
 (** val runtime_error_cls : ecls -> token -> n -> 'a1 m **)
 
-let runtime_error_cls cls t c s =
+let runtime_error_cls cls t0 c s =
   let (o, s') =
     bind (get_ctx c) (fun cx ->
-      bind (trace_aux (S (length s.s_ctxs)) cx.x_parent) (fun rest0 ->
-        ret { d_kind = DRuntime; d_line = t.tline; d_col = t.tcol; d_cls =
-          cls; d_trace = (((cx.x_name, t.tline), t.tcol) :: rest0) })) s
+      bind (trace_aux (S cx.x_depth) cx.x_parent) (fun rest0 ->
+        ret { d_kind = DRuntime; d_line = t0.tline; d_col = t0.tcol; d_cls =
+          cls; d_trace = (((cx.x_name, t0.tline), t0.tcol) :: rest0) })) s
   in
   (match o with
    | Ok d -> ((Fail (FErr d)), s')
@@ -5518,24 +5574,24 @@ let runtime_error_cls cls t c s =
 
 (** val rt_error : token -> n -> 'a1 m **)
 
-let rt_error t c =
-  runtime_error_cls EOther t c
+let rt_error t0 c =
+  runtime_error_cls EOther t0 c
 
 (** val not_defined_error : token -> n -> 'a1 m **)
 
-let not_defined_error t c =
-  runtime_error_cls ENotDefined t c
+let not_defined_error t0 c =
+  runtime_error_cls ENotDefined t0 c
 
 (** val array_direct_error : token -> n -> 'a1 m **)
 
-let array_direct_error t c =
-  runtime_error_cls (EArrayDirect c) t c
+let array_direct_error t0 c =
+  runtime_error_cls (EArrayDirect c) t0 c
 
 (** val pedantic_error : token -> 'a1 m **)
 
-let pedantic_error t =
-  failm (FErr { d_kind = DPedantic; d_line = t.tline; d_col = t.tcol; d_cls =
-    EOther; d_trace = [] })
+let pedantic_error t0 =
+  failm (FErr { d_kind = DPedantic; d_line = t0.tline; d_col = t0.tcol;
+    d_cls = EOther; d_trace = [] })
 
 (** val err_token : token **)
 
@@ -5601,8 +5657,9 @@ let rec lookup_def_aux table fuel c name global =
 (** val lookup_def :
     (ctx -> (str * 'a1) list) -> n -> str -> bool -> 'a1 option m **)
 
-let lookup_def table c name global s =
-  lookup_def_aux table (S (length s.s_ctxs)) c name global s
+let lookup_def table c name global =
+  bind (get_ctx c) (fun cx ->
+    lookup_def_aux table (S cx.x_depth) c name global)
 
 (** val lookup_enum_def : n -> str -> bool -> str list option m **)
 
@@ -5621,23 +5678,23 @@ let lookup_comp_def =
 
 (** val get_type : n -> token -> bool -> dtype m **)
 
-let get_type c t global =
-  match t.tt with
+let get_type c t0 global =
+  match t0.tt with
   | TIDENTIFIER ->
-    bind (lookup_enum_def c t.tval global) (fun e ->
+    bind (lookup_enum_def c t0.tval global) (fun e ->
       match e with
-      | Some _ -> ret { dk = KEnum; dname = (Some t.tval) }
+      | Some _ -> ret { dk = KEnum; dname = (Some t0.tval) }
       | None ->
-        bind (lookup_ptr_def c t.tval global) (fun p0 ->
+        bind (lookup_ptr_def c t0.tval global) (fun p0 ->
           match p0 with
-          | Some _ -> ret { dk = KPtr; dname = (Some t.tval) }
+          | Some _ -> ret { dk = KPtr; dname = (Some t0.tval) }
           | None ->
-            bind (lookup_comp_def c t.tval global) (fun r ->
+            bind (lookup_comp_def c t0.tval global) (fun r ->
               match r with
-              | Some _ -> ret { dk = KRec; dname = (Some t.tval) }
+              | Some _ -> ret { dk = KRec; dname = (Some t0.tval) }
               | None -> ret dt_none)))
   | TDATA_TYPE ->
-    (match psc_type_of_word t.tval with
+    (match psc_type_of_word t0.tval with
      | Some k -> ret (dt_prim k)
      | None ->
        crash
@@ -5682,11 +5739,11 @@ let get_enum_element c v global =
 
 (** val is_identifier_type : n -> token -> bool -> bool m **)
 
-let is_identifier_type c t global =
-  bind (get_type c t global) (fun ty ->
+let is_identifier_type c t0 global =
+  bind (get_type c t0 global) (fun ty ->
     if negb (dt_is ty KNone)
     then ret true
-    else bind (get_enum_element c t.tval global) (fun e ->
+    else bind (get_enum_element c t0.tval global) (fun e ->
            ret (match e with
                 | Some _ -> true
                 | None -> false)))
@@ -5819,8 +5876,8 @@ let rec dump = function
       (z_to_str z0))
 | VReal r ->
   (match fmt_g (Zpos (XI (XO (XO (XO XH))))) r with
-   | Some t ->
-     Some (app (str_of_string ('R'::('E'::('A'::('L'::(' '::[])))))) t)
+   | Some t0 ->
+     Some (app (str_of_string ('R'::('E'::('A'::('L'::(' '::[])))))) t0)
    | None -> None)
 | VBool b ->
   Some
@@ -6034,10 +6091,10 @@ let rd_double s =
                        let r1 = [] in
                        let (ed, r2) = take_digits r1 [] in
                        ((c :: (app esg ed)), r2)
-                     | x :: t ->
+                     | x :: t0 ->
                        if (||) (aeqb x '-') (aeqb x '+')
                        then let esg = x :: [] in
-                            let (ed, r2) = take_digits t [] in
+                            let (ed, r2) = take_digits t0 [] in
                             ((c :: (app esg ed)), r2)
                        else let esg = [] in
                             let (ed, r2) = take_digits r [] in
@@ -6068,10 +6125,10 @@ let rd_double s =
                             let r1 = [] in
                             let (ed, r2) = take_digits r1 [] in
                             ((c0 :: (app esg ed)), r2)
-                          | x :: t ->
+                          | x :: t0 ->
                             if (||) (aeqb x '-') (aeqb x '+')
                             then let esg = x :: [] in
-                                 let (ed, r2) = take_digits t [] in
+                                 let (ed, r2) = take_digits t0 [] in
                                  ((c0 :: (app esg ed)), r2)
                             else let esg = [] in
                                  let (ed, r2) = take_digits r0 [] in
@@ -6101,10 +6158,10 @@ let rd_double s =
                             let r1 = [] in
                             let (ed, r2) = take_digits r1 [] in
                             ((c0 :: (app esg ed)), r2)
-                          | x :: t ->
+                          | x :: t0 ->
                             if (||) (aeqb x '-') (aeqb x '+')
                             then let esg = x :: [] in
-                                 let (ed, r2) = take_digits t [] in
+                                 let (ed, r2) = take_digits t0 [] in
                                  ((c0 :: (app esg ed)), r2)
                             else let esg = [] in
                                  let (ed, r2) = take_digits r0 [] in
@@ -6140,10 +6197,10 @@ let rd_double s =
                             let r1 = [] in
                             let (ed, r2) = take_digits r1 [] in
                             ((c0 :: (app esg ed)), r2)
-                          | x :: t ->
+                          | x :: t0 ->
                             if (||) (aeqb x '-') (aeqb x '+')
                             then let esg = x :: [] in
-                                 let (ed, r2) = take_digits t [] in
+                                 let (ed, r2) = take_digits t0 [] in
                                  ((c0 :: (app esg ed)), r2)
                             else let esg = [] in
                                  let (ed, r2) = take_digits r0 [] in
@@ -6175,10 +6232,10 @@ let rd_double s =
                                  let r2 = [] in
                                  let (ed, r3) = take_digits r2 [] in
                                  ((c1 :: (app esg ed)), r3)
-                               | x :: t ->
+                               | x :: t0 ->
                                  if (||) (aeqb x '-') (aeqb x '+')
                                  then let esg = x :: [] in
-                                      let (ed, r2) = take_digits t [] in
+                                      let (ed, r2) = take_digits t0 [] in
                                       ((c1 :: (app esg ed)), r2)
                                  else let esg = [] in
                                       let (ed, r2) = take_digits r1 [] in
@@ -6210,10 +6267,10 @@ let rd_double s =
                                  let r2 = [] in
                                  let (ed, r3) = take_digits r2 [] in
                                  ((c1 :: (app esg ed)), r3)
-                               | x :: t ->
+                               | x :: t0 ->
                                  if (||) (aeqb x '-') (aeqb x '+')
                                  then let esg = x :: [] in
-                                      let (ed, r2) = take_digits t [] in
+                                      let (ed, r2) = take_digits t0 [] in
                                       ((c1 :: (app esg ed)), r2)
                                  else let esg = [] in
                                       let (ed, r2) = take_digits r1 [] in
@@ -6249,10 +6306,10 @@ let rd_double s =
                             let r1 = [] in
                             let (ed, r2) = take_digits r1 [] in
                             ((c0 :: (app esg ed)), r2)
-                          | x :: t ->
+                          | x :: t0 ->
                             if (||) (aeqb x '-') (aeqb x '+')
                             then let esg = x :: [] in
-                                 let (ed, r2) = take_digits t [] in
+                                 let (ed, r2) = take_digits t0 [] in
                                  ((c0 :: (app esg ed)), r2)
                             else let esg = [] in
                                  let (ed, r2) = take_digits r0 [] in
@@ -6284,10 +6341,10 @@ let rd_double s =
                                  let r2 = [] in
                                  let (ed, r3) = take_digits r2 [] in
                                  ((c1 :: (app esg ed)), r3)
-                               | x :: t ->
+                               | x :: t0 ->
                                  if (||) (aeqb x '-') (aeqb x '+')
                                  then let esg = x :: [] in
-                                      let (ed, r2) = take_digits t [] in
+                                      let (ed, r2) = take_digits t0 [] in
                                       ((c1 :: (app esg ed)), r2)
                                  else let esg = [] in
                                       let (ed, r2) = take_digits r1 [] in
@@ -6319,10 +6376,10 @@ let rd_double s =
                                  let r2 = [] in
                                  let (ed, r3) = take_digits r2 [] in
                                  ((c1 :: (app esg ed)), r3)
-                               | x :: t ->
+                               | x :: t0 ->
                                  if (||) (aeqb x '-') (aeqb x '+')
                                  then let esg = x :: [] in
-                                      let (ed, r2) = take_digits t [] in
+                                      let (ed, r2) = take_digits t0 [] in
                                       ((c1 :: (app esg ed)), r2)
                                  else let esg = [] in
                                       let (ed, r2) = take_digits r1 [] in
@@ -6426,7 +6483,7 @@ let rec load old s =
                (if aeqb c ch_nl
                 then (match r' with
                       | [] -> r'
-                      | h :: t -> if aeqb h ch_hash then t else r')
+                      | h :: t0 -> if aeqb h ch_hash then t0 else r')
                 else r')), true)))
      | None -> ((old, s), false))
   | VStr _ ->
@@ -6497,13 +6554,13 @@ let rec load old s =
                  let rec load_list0 l s0 =
                    match l with
                    | [] -> (([], s0), true)
-                   | x :: t ->
+                   | x :: t0 ->
                      let (p1, ok) = load x s0 in
                      let (x', s') = p1 in
                      if ok
-                     then let (p2, ok') = load_list0 t s' in
+                     then let (p2, ok') = load_list0 t0 s' in
                           let (t', s'') = p2 in (((x' :: t'), s''), ok')
-                     else (((x' :: t), s'), false)
+                     else (((x' :: t0), s'), false)
                  in load_list0
                in
                let load_arr = fun l s0 ->
@@ -6522,13 +6579,13 @@ let rec load old s =
                  let rec load_arrs l s0 =
                    match l with
                    | [] -> (([], s0), true)
-                   | x :: t ->
+                   | x :: t0 ->
                      let (p1, ok) = load_arr x s0 in
                      let (x', s') = p1 in
                      if ok
-                     then let (p2, ok') = load_arrs t s' in
+                     then let (p2, ok') = load_arrs t0 s' in
                           let (t', s'') = p2 in (((x' :: t'), s''), ok')
-                     else (((x' :: t), s'), false)
+                     else (((x' :: t0), s'), false)
                  in load_arrs
                in
                let (p1, ok1) = load_list0 fields r1 in
@@ -6546,13 +6603,13 @@ let rec load old s =
 let rec load_list l s =
   match l with
   | [] -> (([], s), true)
-  | x :: t ->
+  | x :: t0 ->
     let (p0, ok) = load x s in
     let (x', s') = p0 in
     if ok
-    then let (p1, ok') = load_list t s' in
+    then let (p1, ok') = load_list t0 s' in
          let (t', s'') = p1 in (((x' :: t'), s''), ok')
-    else (((x' :: t), s'), false)
+    else (((x' :: t0), s'), false)
 
 (** val load_array : vtree list -> str -> (vtree list * str) * bool **)
 
@@ -6681,7 +6738,8 @@ type holder =
 let blank_ctx_like cx =
   { x_parent = cx.x_parent; x_name = cx.x_name; x_vars = []; x_arrs = [];
     x_enums = []; x_ptrs = []; x_comps = []; x_isfun = cx.x_isfun; x_isrec =
-    cx.x_isrec; x_rettype = cx.x_rettype; x_retval = None; x_switch = None }
+    cx.x_isrec; x_rettype = cx.x_rettype; x_retval = None; x_switch = None;
+    x_depth = cx.x_depth }
 
 (** val zipM : ('a1 -> 'a2 -> unit m) -> 'a1 list -> 'a2 list -> unit m **)
 
@@ -6932,11 +6990,11 @@ let assign_val fuel dst v =
       (match v.r_val with
        | Some p0 ->
          (match p0 with
-          | PPtr (tn, t, o) ->
+          | PPtr (tn, t0, o) ->
             (match d.c_val with
              | PPtr (tn0, _, _) ->
                if str_eqb tn0 tn
-               then set_cell_val dst (PPtr (tn0, t, o))
+               then set_cell_val dst (PPtr (tn0, t0, o))
                else crash
                       ('u'::('s'::('e'::('r'::('T'::('y'::('p'::('e'::('.'::('c'::('p'::('p'::(' '::('P'::('o'::('i'::('n'::('t'::('e'::('r'::(':'::(':'::('o'::('p'::('e'::('r'::('a'::('t'::('o'::('r'::('='::(' '::('a'::('b'::('o'::('r'::('t'::[])))))))))))))))))))))))))))))))))))))
              | _ ->
@@ -7003,12 +7061,12 @@ let rec abs_val fuel c = function
 
 (** val store_tree : nat -> n -> vtree -> unit m **)
 
-let rec store_tree fuel id t =
+let rec store_tree fuel id t0 =
   match fuel with
   | O -> failm FFuel
   | S f ->
     bind (get_cell id) (fun cl ->
-      match t with
+      match t0 with
       | VInt z0 -> set_cell_val id (PInt z0)
       | VReal r -> set_cell_val id (PReal r)
       | VBool b -> set_cell_val id (PBool b)
@@ -7250,15 +7308,15 @@ let bi_rand x r1 r2 =
 
 (** val budget_error : token -> n -> 'a1 m **)
 
-let budget_error t c =
-  runtime_error_cls EBudget t c
+let budget_error t0 c =
+  runtime_error_cls EBudget t0 c
 
 (** val tick : limits -> token -> n -> unit m **)
 
-let tick lim t c =
+let tick lim t0 c =
   bind (gets (fun s -> s.s_steps)) (fun s ->
     if (&&) (Z.ltb Z0 lim.max_steps) (Z.ltb lim.max_steps (Z.add s (Zpos XH)))
-    then budget_error t c
+    then budget_error t0 c
     else modify (set_steps (Z.add s (Zpos XH))))
 
 (** val alloc_cells : limits -> z -> n -> unit m **)
@@ -7274,15 +7332,15 @@ let alloc_cells lim n0 c =
 
 (** val check_strlen : limits -> z -> token -> n -> unit m **)
 
-let check_strlen lim n0 t c =
+let check_strlen lim n0 t0 c =
   if (&&) (Z.ltb Z0 lim.max_strlen) (Z.ltb lim.max_strlen n0)
-  then budget_error t c
+  then budget_error t0 c
   else ret ()
 
 (** val is_numeric : dtype -> bool **)
 
-let is_numeric t =
-  (||) (dt_is t KInt) (dt_is t KReal)
+let is_numeric t0 =
+  (||) (dt_is t0 KInt) (dt_is t0 KReal)
 
 (** val implicit_cast : dtype -> result -> result m **)
 
@@ -7354,7 +7412,7 @@ let real_to_char r = match r with
 
 (** val cast_prim : token -> n -> payload -> dkind -> payload m **)
 
-let cast_prim t c p0 = function
+let cast_prim t0 c p0 = function
 | KNone ->
   crash
     ('c'::('a'::('s'::('t'::('.'::('c'::('p'::('p'::(' '::('N'::('O'::('N'::('E'::(' '::('a'::('b'::('o'::('r'::('t'::[])))))))))))))))))))
@@ -7411,7 +7469,7 @@ let cast_prim t c p0 = function
      crash
        ('s'::('t'::('a'::('t'::('i'::('c'::('_'::('c'::('a'::('s'::('t'::('<'::('P'::('r'::('i'::('m'::('i'::('t'::('i'::('v'::('e'::('*'::('>'::(' '::('o'::('n'::(' '::('a'::(' '::('c'::('u'::('s'::('t'::('o'::('m'::(' '::('v'::('a'::('l'::('u'::('e'::[]))))))))))))))))))))))))))))))))))))))))))
 | KStr -> bind (prim_to_string p0) (fun s -> ret (PStr s))
-| _ -> rt_error t c
+| _ -> rt_error t0 c
 
 (** val arith_int : ttype -> z -> z -> z **)
 
@@ -7599,9 +7657,9 @@ let enum_name c tn idx =
 
 (** val output_item : n -> token -> result -> unit m **)
 
-let output_item c t r =
+let output_item c t0 r =
   match r.r_type.dk with
-  | KNone -> rt_error t c
+  | KNone -> rt_error t0 c
   | KInt -> bind (as_int r) (fun z0 -> emit (z_to_str z0))
   | KReal ->
     bind (as_real r) (fun x ->
@@ -7941,7 +7999,7 @@ let next_rand =
   bind (gets (fun s -> s.s_rand)) (fun r ->
     match r with
     | [] -> ret Z0
-    | x :: t -> bind (modify (set_rand t)) (fun _ -> ret x))
+    | x :: t0 -> bind (modify (set_rand t0)) (fun _ -> ret x))
 
 (** val run_builtin : str -> n -> payload list -> result m **)
 
@@ -8136,9 +8194,9 @@ let hfuel =
 
 (** val expect_holder_var : token -> n -> holder -> n m **)
 
-let expect_holder_var t c = function
+let expect_holder_var t0 c = function
 | HVar id -> ret id
-| HArr _ -> array_direct_error t c
+| HArr _ -> array_direct_error t0 c
 
 (** val run_block : bool -> bool -> limits -> nat -> block -> n -> unit m **)
 
@@ -8148,26 +8206,26 @@ let run_block pedantic repl lim =
     | O -> failm FFuel
     | S f ->
       (match n0 with
-       | NInt t -> ret (res_of KInt (PInt (digits_to_z t.tval)))
-       | NReal t ->
-         (match stod_literal t.tval with
+       | NInt t0 -> ret (res_of KInt (PInt (digits_to_z t0.tval)))
+       | NReal t0 ->
+         (match stod_literal t0.tval with
           | Some r -> ret (res_of KReal (PReal r))
           | None ->
             crash
               ('R'::('e'::('a'::('l'::('N'::('o'::('d'::('e'::(':'::(' '::('s'::('t'::('o'::('d'::(' '::('o'::('u'::('t'::('_'::('o'::('f'::('_'::('r'::('a'::('n'::('g'::('e'::[]))))))))))))))))))))))))))))
-       | NBool t ->
-         (match t.tt with
+       | NBool t0 ->
+         (match t0.tt with
           | TTRUE -> ret (res_of KBool (PBool true))
           | TFALSE -> ret (res_of KBool (PBool false))
           | _ ->
             crash
               ('c'::('o'::('m'::('p'::('a'::('r'::('i'::('s'::('o'::('n'::('.'::('c'::('p'::('p'::(' '::('B'::('o'::('o'::('l'::('e'::('a'::('n'::('N'::('o'::('d'::('e'::(' '::('a'::('b'::('o'::('r'::('t'::[])))))))))))))))))))))))))))))))))
-       | NChar t ->
-         (match t.tval with
+       | NChar t0 ->
+         (match t0.tval with
           | [] -> ret (res_of KChar (PChar ch_nul))
           | ch :: _ -> ret (res_of KChar (PChar ch)))
-       | NStr t -> ret (res_of KStr (PStr t.tval))
-       | NDate t ->
+       | NStr t0 -> ret (res_of KStr (PStr t0.tval))
+       | NDate t0 ->
          let parts =
            let rec split s cur0 acc =
              match s with
@@ -8176,7 +8234,7 @@ let run_block pedantic repl lim =
                if aeqb ch '/'
                then split r [] ((rev cur0) :: acc)
                else split r (ch :: cur0) acc
-           in split t.tval [] []
+           in split t0.tval [] []
          in
          (match parts with
           | [] ->
@@ -8221,13 +8279,13 @@ let run_block pedantic repl lim =
                           let (d, m0) = p0 in
                           if ymd_ok d m0 y
                           then ret (res_of KDate (PDate (d, m0, y)))
-                          else rt_error t c
+                          else rt_error t0 c
                      else crash
                             ('a'::('r'::('i'::('t'::('h'::('m'::('e'::('t'::('i'::('c'::('.'::('c'::('p'::('p'::(' '::('m'::('a'::('k'::('e'::('D'::('a'::('t'::('e'::(':'::(' '::('s'::('t'::('o'::('u'::('l'::(' '::('i'::('n'::('v'::('a'::('l'::('i'::('d'::('_'::('a'::('r'::('g'::('u'::('m'::('e'::('n'::('t'::[])))))))))))))))))))))))))))))))))))))))))))))))
                    | _ :: _ ->
                      crash
                        ('a'::('r'::('i'::('t'::('h'::('m'::('e'::('t'::('i'::('c'::('.'::('c'::('p'::('p'::(' '::('m'::('a'::('k'::('e'::('D'::('a'::('t'::('e'::(':'::(' '::('s'::('t'::('o'::('u'::('l'::(' '::('i'::('n'::('v'::('a'::('l'::('i'::('d'::('_'::('a'::('r'::('g'::('u'::('m'::('e'::('n'::('t'::[])))))))))))))))))))))))))))))))))))))))))))))))))))
-       | NNeg (t, e) ->
+       | NNeg (t0, e) ->
          bind (eval f e c) (fun r ->
            if dt_is r.r_type KInt
            then bind (as_int r) (fun z0 ->
@@ -8236,8 +8294,8 @@ let run_block pedantic repl lim =
                 then bind (as_real r) (fun x ->
                        ret
                          (res_of KReal (PReal (rmul x (real_of_z (Zneg XH))))))
-                else rt_error t c)
-       | NArith (t, l, r) ->
+                else rt_error t0 c)
+       | NArith (t0, l, r) ->
          bind (eval f l c) (fun lr0 ->
            bind (eval f r c) (fun rr0 ->
              let swap = (&&) (dt_is lr0.r_type KInt) (dt_is rr0.r_type KEnum)
@@ -8245,7 +8303,7 @@ let run_block pedantic repl lim =
              let lr = if swap then rr0 else lr0 in
              let rr = if swap then lr0 else rr0 in
              if (&&) ((&&) (dt_is lr.r_type KEnum) (dt_is rr.r_type KInt))
-                  ((||) (tt_eqb t.tt TPLUS) (tt_eqb t.tt TMINUS))
+                  ((||) (tt_eqb t0.tt TPLUS) (tt_eqb t0.tt TMINUS))
              then bind (as_payload lr) (fun p0 ->
                     bind (as_int rr) (fun k ->
                       match p0 with
@@ -8261,13 +8319,13 @@ let run_block pedantic repl lim =
                                  then ret { r_type = { dk = KEnum; dname =
                                         (Some tn) }; r_val = (Some (PEnum
                                         (tn,
-                                        (enum_arith (tt_eqb t.tt TPLUS) k idx
-                                          n1)))) }
+                                        (enum_arith (tt_eqb t0.tt TPLUS) k
+                                          idx n1)))) }
                                  else ret { r_type = { dk = KEnum; dname =
                                         (Some tn) }; r_val = (Some (PEnum
                                         (tn,
-                                        (enum_arith (tt_eqb t.tt TPLUS) idx k
-                                          n1)))) }
+                                        (enum_arith (tt_eqb t0.tt TPLUS) idx
+                                          k n1)))) }
                           | None ->
                             crash
                               ('u'::('s'::('e'::('r'::('T'::('y'::('p'::('e'::('.'::('c'::('p'::('p'::(' '::('E'::('n'::('u'::('m'::(':'::(':'::('g'::('e'::('t'::('D'::('e'::('f'::('i'::('n'::('i'::('t'::('i'::('o'::('n'::(' '::('n'::('u'::('l'::('l'::[]))))))))))))))))))))))))))))))))))))))
@@ -8276,44 +8334,44 @@ let run_block pedantic repl lim =
                           ('g'::('e'::('t'::('<'::('E'::('n'::('u'::('m'::('>'::(' '::('o'::('n'::(' '::('o'::('t'::('h'::('e'::('r'::(' '::('p'::('a'::('y'::('l'::('o'::('a'::('d'::[]))))))))))))))))))))))))))))
              else if (||) (negb (is_numeric lr.r_type))
                        (negb (is_numeric rr.r_type))
-                  then rt_error t c
+                  then rt_error t0 c
                   else if (&&) (dt_is lr.r_type KInt) (dt_is rr.r_type KInt)
                        then bind (as_int lr) (fun a ->
                               bind (as_int rr) (fun b ->
-                                match t.tt with
+                                match t0.tt with
                                 | TPLUS ->
                                   ret
-                                    (res_of KInt (PInt (arith_int t.tt a b)))
+                                    (res_of KInt (PInt (arith_int t0.tt a b)))
                                 | TMINUS ->
                                   ret
-                                    (res_of KInt (PInt (arith_int t.tt a b)))
+                                    (res_of KInt (PInt (arith_int t0.tt a b)))
                                 | TSTAR ->
                                   ret
-                                    (res_of KInt (PInt (arith_int t.tt a b)))
+                                    (res_of KInt (PInt (arith_int t0.tt a b)))
                                 | TSLASH ->
                                   if Z.eqb b Z0
-                                  then rt_error t c
+                                  then rt_error t0 c
                                   else ret
                                          (res_of KReal (PReal
                                            (rdiv (real_of_z a) (real_of_z b))))
                                 | TDIV ->
                                   if Z.eqb b Z0
-                                  then rt_error t c
+                                  then rt_error t0 c
                                   else ret
                                          (res_of KInt (PInt
-                                           (arith_int t.tt a b)))
+                                           (arith_int t0.tt a b)))
                                 | TMOD ->
                                   if Z.eqb b Z0
-                                  then rt_error t c
+                                  then rt_error t0 c
                                   else ret
                                          (res_of KInt (PInt
-                                           (arith_int t.tt a b)))
+                                           (arith_int t0.tt a b)))
                                 | _ ->
                                   crash
                                     ('a'::('r'::('i'::('t'::('h'::('m'::('e'::('t'::('i'::('c'::('.'::('c'::('p'::('p'::(' '::('o'::('p'::('e'::('r'::('a'::('t'::('o'::('r'::(' '::('a'::('b'::('o'::('r'::('t'::[])))))))))))))))))))))))))))))))
                        else bind (num_as_real lr) (fun a ->
                               bind (num_as_real rr) (fun b ->
-                                match t.tt with
+                                match t0.tt with
                                 | TPLUS ->
                                   ret (res_of KReal (PReal (radd a b)))
                                 | TMINUS ->
@@ -8322,23 +8380,23 @@ let run_block pedantic repl lim =
                                   ret (res_of KReal (PReal (rmul a b)))
                                 | TSLASH ->
                                   if is_rzero b
-                                  then rt_error t c
+                                  then rt_error t0 c
                                   else ret (res_of KReal (PReal (rdiv a b)))
                                 | TDIV ->
                                   if is_rzero b
-                                  then rt_error t c
+                                  then rt_error t0 c
                                   else ret
                                          (res_of KInt (PInt
                                            (real_to_int64 (rfloor (rdiv a b)))))
                                 | TMOD ->
                                   if is_rzero b
-                                  then rt_error t c
+                                  then rt_error t0 c
                                   else ret
                                          (res_of KReal (PReal (mod_real a b)))
                                 | _ ->
                                   crash
                                     ('a'::('r'::('i'::('t'::('h'::('m'::('e'::('t'::('i'::('c'::('.'::('c'::('p'::('p'::(' '::('o'::('p'::('e'::('r'::('a'::('t'::('o'::('r'::(' '::('a'::('b'::('o'::('r'::('t'::[])))))))))))))))))))))))))))))))))
-       | NCmp (t, l, r) ->
+       | NCmp (t0, l, r) ->
          bind (eval f l c) (fun lr0 ->
            bind (eval f r c) (fun rr0 ->
              bind
@@ -8367,9 +8425,9 @@ let run_block pedantic repl lim =
                let (lr, rr) = x in
                if (||) (negb (is_numeric lr.r_type))
                     (negb (is_numeric rr.r_type))
-               then let eq = tt_eqb t.tt TEQUALS in
-                    if (&&) (negb eq) (negb (tt_eqb t.tt TNOT_EQUALS))
-                    then rt_error t c
+               then let eq = tt_eqb t0.tt TEQUALS in
+                    if (&&) (negb eq) (negb (tt_eqb t0.tt TNOT_EQUALS))
+                    then rt_error t0 c
                     else if negb (dt_eq lr.r_type rr.r_type)
                          then ret (res_of KBool (PBool (negb eq)))
                          else let fin = fun ceq ->
@@ -8398,11 +8456,11 @@ let run_block pedantic repl lim =
                                      | _ ->
                                        crash
                                          ('g'::('e'::('t'::('<'::('E'::('n'::('u'::('m'::('>'::(' '::('o'::('n'::(' '::('o'::('t'::('h'::('e'::('r'::(' '::('p'::('a'::('y'::('l'::('o'::('a'::('d'::[]))))))))))))))))))))))))))))
-                               | _ -> rt_error t c)
+                               | _ -> rt_error t0 c)
                else if (&&) (dt_is lr.r_type KInt) (dt_is rr.r_type KInt)
                     then bind (as_int lr) (fun a ->
                            bind (as_int rr) (fun b ->
-                             match t.tt with
+                             match t0.tt with
                              | TEQUALS ->
                                ret (res_of KBool (PBool (Z.eqb a b)))
                              | TNOT_EQUALS ->
@@ -8420,7 +8478,7 @@ let run_block pedantic repl lim =
                                  ('c'::('o'::('m'::('p'::('a'::('r'::('i'::('s'::('o'::('n'::('.'::('c'::('p'::('p'::(' '::('o'::('p'::('e'::('r'::('a'::('t'::('o'::('r'::(' '::('a'::('b'::('o'::('r'::('t'::[])))))))))))))))))))))))))))))))
                     else bind (num_as_real lr) (fun a ->
                            bind (num_as_real rr) (fun b ->
-                             match t.tt with
+                             match t0.tt with
                              | TEQUALS -> ret (res_of KBool (PBool (req a b)))
                              | TNOT_EQUALS ->
                                ret (res_of KBool (PBool (rne a b)))
@@ -8434,9 +8492,9 @@ let run_block pedantic repl lim =
                              | _ ->
                                crash
                                  ('c'::('o'::('m'::('p'::('a'::('r'::('i'::('s'::('o'::('n'::('.'::('c'::('p'::('p'::(' '::('o'::('p'::('e'::('r'::('a'::('t'::('o'::('r'::(' '::('a'::('b'::('o'::('r'::('t'::[]))))))))))))))))))))))))))))))))))
-       | NLogic (t, l, r) ->
+       | NLogic (t0, l, r) ->
          bind (eval f l c) (fun lr ->
-           let is_and = tt_eqb t.tt TAND in
+           let is_and = tt_eqb t0.tt TAND in
            bind
              (if (&&) is_and (dt_is lr.r_type KBool)
               then bind (as_bool lr) (fun b -> ret (negb b))
@@ -8446,53 +8504,54 @@ let run_block pedantic repl lim =
              else bind (eval f r c) (fun rr ->
                     if (||) (negb (dt_is lr.r_type KBool))
                          (negb (dt_is rr.r_type KBool))
-                    then rt_error t c
+                    then rt_error t0 c
                     else bind (as_bool lr) (fun a ->
                            bind (as_bool rr) (fun b ->
-                             match t.tt with
+                             match t0.tt with
                              | TAND -> ret (res_of KBool (PBool ((&&) a b)))
                              | TOR -> ret (res_of KBool (PBool ((||) a b)))
                              | _ ->
                                crash
                                  ('l'::('o'::('g'::('i'::('c'::('.'::('c'::('p'::('p'::(' '::('o'::('p'::('e'::('r'::('a'::('t'::('o'::('r'::(' '::('a'::('b'::('o'::('r'::('t'::[])))))))))))))))))))))))))))))
-       | NNot (t, e) ->
+       | NNot (t0, e) ->
          bind (eval f e c) (fun r ->
            if negb (dt_is r.r_type KBool)
-           then rt_error t c
+           then rt_error t0 c
            else bind (as_bool r) (fun b ->
                   ret (res_of KBool (PBool (negb b)))))
-       | NCat (t, l, r) ->
+       | NCat (t0, l, r) ->
          bind (eval f l c) (fun lr ->
            bind (eval f r c) (fun rr ->
              if (||) (dt_is lr.r_type KNone) (dt_is rr.r_type KNone)
-             then rt_error t c
+             then rt_error t0 c
              else bind (as_payload lr) (fun a ->
                     bind (as_payload rr) (fun b ->
                       if (||) (negb (is_primitive a)) (negb (is_primitive b))
-                      then rt_error t c
+                      then rt_error t0 c
                       else bind (prim_to_string a) (fun sa ->
                              bind (prim_to_string b) (fun sb ->
                                bind
                                  (check_strlen lim
-                                   (Z.add (slen sa) (slen sb)) t c) (fun _ ->
+                                   (Z.add (slen sa) (slen sb)) t0 c)
+                                 (fun _ ->
                                  ret (res_of KStr (PStr (app sa sb))))))))))
-       | NCast (t, e, target) ->
+       | NCast (t0, e, target) ->
          bind (eval f e c) (fun v ->
            if dt_is v.r_type KNone
-           then rt_error t c
+           then rt_error t0 c
            else bind (as_payload v) (fun p0 ->
                   if negb (is_primitive p0)
-                  then rt_error t c
+                  then rt_error t0 c
                   else if dt_is v.r_type target
                        then ret v
                        else if (&&)
                                  ((&&) (dt_is v.r_type KDate)
                                    (negb (dk_eqb target KInt)))
                                  (negb (dk_eqb target KStr))
-                            then rt_error t c
-                            else bind (cast_prim t c p0 target) (fun p' ->
+                            then rt_error t0 c
+                            else bind (cast_prim t0 c p0 target) (fun p' ->
                                    ret (res_of target p'))))
-       | NAccess (t, r) ->
+       | NAccess (t0, r) ->
          bind
            (catch (bind (resolve f r c) (fun x -> ret (Inl x))) (fun fl ->
              match fl with
@@ -8500,7 +8559,7 @@ let run_block pedantic repl lim =
                (match d.d_cls with
                 | ENotDefined ->
                   Some
-                    (bind (get_enum_element c t.tval true) (fun e ->
+                    (bind (get_enum_element c t0.tval true) (fun e ->
                       match e with
                       | Some ti -> ret (Inr ti)
                       | None -> failm fl))
@@ -8516,12 +8575,12 @@ let run_block pedantic repl lim =
                          ('v'::('a'::('r'::('i'::('a'::('b'::('l'::('e'::('.'::('c'::('p'::('p'::(' '::('A'::('c'::('c'::('e'::('s'::('s'::('N'::('o'::('d'::('e'::(' '::('N'::('O'::('N'::('E'::(' '::('a'::('b'::('o'::('r'::('t'::[]))))))))))))))))))))))))))))))))))
                   else bind (copy_val hfuel cl.c_val) (fun v ->
                          ret { r_type = cl.c_type; r_val = (Some v) }))
-              | HArr _ -> array_direct_error t c)
+              | HArr _ -> array_direct_error t0 c)
            | Inr p0 ->
              let (tn, i) = p0 in
              ret { r_type = { dk = KEnum; dname = (Some tn) }; r_val = (Some
                (PEnum (tn, i))) })
-       | NAssign (t, e, r) ->
+       | NAssign (t0, e, r) ->
          bind
            (catch (bind (eval f e c) (fun x -> ret (Some x))) (fun fl ->
              match fl with
@@ -8537,11 +8596,11 @@ let run_block pedantic repl lim =
            match vr with
            | Some v ->
              if dt_is v.r_type KNone
-             then rt_error t c
+             then rt_error t0 c
              else bind
                     (catch
                       (bind (resolve f r c) (fun h ->
-                        expect_holder_var t c h)) (fun fl ->
+                        expect_holder_var t0 c h)) (fun fl ->
                       match fl with
                       | FErr d ->
                         (match d.d_cls with
@@ -8554,7 +8613,7 @@ let run_block pedantic repl lim =
                                   if ist
                                   then failm fl
                                   else if pedantic
-                                       then pedantic_error t
+                                       then pedantic_error t0
                                        else bind
                                               (new_var f tk.tval v.r_type
                                                 false c) (fun nid ->
@@ -8565,10 +8624,10 @@ let run_block pedantic repl lim =
                       | _ -> None)) (fun id ->
                     bind (get_cell id) (fun cl ->
                       if cl.c_const
-                      then rt_error t c
+                      then rt_error t0 c
                       else bind (implicit_cast cl.c_type v) (fun v' ->
                              if negb (dt_eq cl.c_type v'.r_type)
-                             then rt_error t c
+                             then rt_error t0 c
                              else bind (assign_val hfuel id v') (fun _ ->
                                     ret res_none))))
            | None ->
@@ -8587,31 +8646,31 @@ let run_block pedantic repl lim =
                         bind (get_arr did) (fun a1 ->
                           bind (get_arr sid) (fun a2 ->
                             if negb (dt_eq a1.a_type a2.a_type)
-                            then rt_error t c
+                            then rt_error t0 c
                             else if negb (dims_eqb a1.a_dims a2.a_dims)
-                                 then rt_error t c
+                                 then rt_error t0 c
                                  else bind (copy_array_data hfuel did sid)
                                         (fun _ -> ret res_none)))))
               | _ ->
                 crash
                   ('u'::('n'::('r'::('e'::('a'::('c'::('h'::('a'::('b'::('l'::('e'::(':'::(' '::('h'::('a'::('n'::('d'::('l'::('e'::('r'::(' '::('o'::('n'::('l'::('y'::(' '::('f'::('i'::('r'::('e'::('s'::(' '::('f'::('o'::('r'::(' '::('a'::('n'::(' '::('A'::('c'::('c'::('e'::('s'::('s'::('N'::('o'::('d'::('e'::[])))))))))))))))))))))))))))))))))))))))))))))))))))
-       | NPtrAssign (t, pr, vr) ->
+       | NPtrAssign (t0, pr, vr) ->
          bind (resolve f pr c) (fun ph ->
-           bind (expect_holder_var t c ph) (fun pid ->
+           bind (expect_holder_var t0 c ph) (fun pid ->
              bind (resolve f vr c) (fun vh ->
                match vh with
                | HVar vid ->
                  bind (get_cell pid) (fun pc ->
                    bind (get_cell vid) (fun vc ->
                      if negb (dt_is pc.c_type KPtr)
-                     then rt_error t c
+                     then rt_error t0 c
                      else (match pc.c_val with
                            | PPtr (tn, _, _) ->
                              bind (lookup_ptr_def c tn true) (fun d ->
                                match d with
                                | Some target_ty ->
                                  if negb (dt_eq target_ty vc.c_type)
-                                 then rt_error t c
+                                 then rt_error t0 c
                                  else bind (nonrec_ancestor vc.c_owner)
                                         (fun owner ->
                                         bind
@@ -8624,29 +8683,29 @@ let run_block pedantic repl lim =
                            | _ ->
                              crash
                                ('c'::('e'::('l'::('l'::(' '::('p'::('a'::('y'::('l'::('o'::('a'::('d'::(' '::('d'::('i'::('s'::('a'::('g'::('r'::('e'::('e'::('s'::(' '::('w'::('i'::('t'::('h'::(' '::('i'::('t'::('s'::(' '::('t'::('y'::('p'::('e'::[])))))))))))))))))))))))))))))))))))))))
-               | HArr _ -> rt_error t c)))
-       | NFnCall (t, args) -> call_function f t args c
-       | NDeclare (t, ids, ty) ->
+               | HArr _ -> rt_error t0 c)))
+       | NFnCall (t0, args) -> call_function f t0 args c
+       | NDeclare (t0, ids, ty) ->
          bind
            (iterM (fun id ->
              bind (lookup_var c id.tval false) (fun ex ->
                match ex with
-               | Some _ -> rt_error t c
+               | Some _ -> rt_error t0 c
                | None ->
                  bind (is_identifier_type c id true) (fun ist ->
                    if ist
-                   then rt_error t c
+                   then rt_error t0 c
                    else bind (get_type c ty true) (fun dty ->
                           if dt_is dty KNone
-                          then not_defined_error t c
+                          then not_defined_error t0 c
                           else bind (new_var f id.tval dty false c)
                                  (fun nid -> add_var c id.tval nid))))) ids)
            (fun _ -> ret res_none)
-       | NConst (t, v, id) ->
+       | NConst (t0, v, id) ->
          bind (eval f v c) (fun r ->
            bind (lookup_var c id.tval false) (fun ex ->
              match ex with
-             | Some _ -> rt_error t c
+             | Some _ -> rt_error t0 c
              | None ->
                if dt_is r.r_type KNone
                then crash
@@ -8658,7 +8717,7 @@ let run_block pedantic repl lim =
                             r.r_type; c_const = true; c_owner = c; c_val =
                             p0 }) (fun _ ->
                           bind (add_var c id.tval nid) (fun _ -> ret res_none))))))
-       | NArrDeclare (t, ids, ty, bounds) ->
+       | NArrDeclare (t0, ids, ty, bounds) ->
          if (||) (Nat.eqb (length bounds) O) (negb (Nat.even (length bounds)))
          then crash
                 ('a'::('r'::('r'::('a'::('y'::('.'::('c'::('p'::('p'::(' '::('A'::('r'::('r'::('a'::('y'::('D'::('e'::('c'::('l'::('a'::('r'::('e'::('N'::('o'::('d'::('e'::(' '::('a'::('b'::('o'::('r'::('t'::[]))))))))))))))))))))))))))))))))
@@ -8666,7 +8725,7 @@ let run_block pedantic repl lim =
                 (iterM (fun id ->
                   bind (lookup_arr c id.tval false) (fun ex ->
                     match ex with
-                    | Some _ -> rt_error t c
+                    | Some _ -> rt_error t0 c
                     | None -> ret ())) ids) (fun _ ->
                 bind
                   (let rec go bs total =
@@ -8707,39 +8766,39 @@ let run_block pedantic repl lim =
                     (iterM (fun id ->
                       bind (get_type c ty true) (fun dty ->
                         if dt_is dty KNone
-                        then not_defined_error t c
+                        then not_defined_error t0 c
                         else bind (new_array f id.tval dty dims c)
                                (fun aid -> add_arr c id.tval aid))) ids)
                     (fun _ -> ret res_none)))
-       | NEnumDef (t, name, vals) ->
+       | NEnumDef (t0, name, vals) ->
          bind (is_identifier_type c name false) (fun ist ->
            if ist
-           then rt_error t c
+           then rt_error t0 c
            else bind
                   (upd_ctx c (fun k ->
                     ctx_with_enums (app k.x_enums ((name.tval, vals) :: [])) k))
                   (fun _ -> ret res_none))
-       | NPtrDef (t, name, ty) ->
+       | NPtrDef (t0, name, ty) ->
          bind (get_type c ty true) (fun pty ->
            if dt_is pty KNone
-           then not_defined_error t c
+           then not_defined_error t0 c
            else bind (is_identifier_type c name false) (fun ist ->
                   if ist
-                  then rt_error t c
+                  then rt_error t0 c
                   else bind
                          (upd_ctx c (fun k ->
                            ctx_with_ptrs
                              (app k.x_ptrs ((name.tval, pty) :: [])) k))
                          (fun _ -> ret res_none)))
-       | NCompDef (t, name, body) ->
+       | NCompDef (t0, name, body) ->
          bind (is_identifier_type c name false) (fun ist ->
            if ist
-           then rt_error t c
+           then rt_error t0 c
            else bind
                   (upd_ctx c (fun k ->
                     ctx_with_comps (app k.x_comps ((name.tval, body) :: [])) k))
                   (fun _ -> ret res_none))
-       | NIf (t, comps) ->
+       | NIf (t0, comps) ->
          let rec go = function
          | [] -> ret res_none
          | p0 :: rest0 ->
@@ -8748,7 +8807,7 @@ let run_block pedantic repl lim =
             | Some cond ->
               bind (eval f cond c) (fun cr ->
                 if negb (dt_is cr.r_type KBool)
-                then rt_error t c
+                then rt_error t0 c
                 else bind (as_bool cr) (fun v ->
                        if v
                        then bind (run_block0 f b c) (fun _ -> ret res_none)
@@ -8773,14 +8832,14 @@ let run_block pedantic repl lim =
                   else go rest0)
               | COther b -> bind (run_block0 f b c) (fun _ -> ret res_none))
            in go cases)
-       | NWhile (t, cond, body) ->
+       | NWhile (t0, cond, body) ->
          let rec loop = function
          | O -> failm FFuel
          | S k' ->
-           bind (tick lim t c) (fun _ ->
+           bind (tick lim t0 c) (fun _ ->
              bind (eval f cond c) (fun cr ->
                if negb (dt_is cr.r_type KBool)
-               then rt_error t c
+               then rt_error t0 c
                else bind (as_bool cr) (fun v ->
                       if negb v
                       then ret res_none
@@ -8794,11 +8853,11 @@ let run_block pedantic repl lim =
                                | _ -> None)) (fun go_on ->
                              if go_on then loop k' else ret res_none))))
          in loop f
-       | NRepeat (t, cond, body) ->
+       | NRepeat (t0, cond, body) ->
          let rec loop = function
          | O -> failm FFuel
          | S k' ->
-           bind (tick lim t c) (fun _ ->
+           bind (tick lim t0 c) (fun _ ->
              bind
                (catch (bind (run_block0 f body c) (fun _ -> ret true))
                  (fun fl ->
@@ -8810,11 +8869,11 @@ let run_block pedantic repl lim =
                then ret res_none
                else bind (eval f cond c) (fun cr ->
                       if negb (dt_is cr.r_type KBool)
-                      then rt_error t c
+                      then rt_error t0 c
                       else bind (as_bool cr) (fun v ->
                              if v then ret res_none else loop k'))))
          in loop f
-       | NFor (t, id, start, stop, step, body) ->
+       | NFor (t0, id, start, stop, step, body) ->
          bind (lookup_var c id.tval true) (fun ex ->
            bind
              (match ex with
@@ -8825,21 +8884,21 @@ let run_block pedantic repl lim =
              (fun it ->
              bind (get_cell it) (fun icell ->
                if icell.c_const
-               then rt_error t c
+               then rt_error t0 c
                else if negb (dt_is icell.c_type KInt)
-                    then rt_error t c
+                    then rt_error t0 c
                     else bind (eval f start c) (fun sr ->
                            if negb (dt_is sr.r_type KInt)
-                           then rt_error t c
+                           then rt_error t0 c
                            else bind (eval f stop c) (fun er ->
                                   if negb (dt_is er.r_type KInt)
-                                  then rt_error t c
+                                  then rt_error t0 c
                                   else bind
                                          (match step with
                                           | Some se ->
                                             bind (eval f se c) (fun r ->
                                               if negb (dt_is r.r_type KInt)
-                                              then rt_error t c
+                                              then rt_error t0 c
                                               else as_int r)
                                           | None -> ret (Zpos XH))
                                          (fun stepv ->
@@ -8857,7 +8916,8 @@ let run_block pedantic repl lim =
                                                      if if Z.ltb stepv Z0
                                                         then Z.leb ev i
                                                         else Z.leb i ev
-                                                     then bind (tick lim t c)
+                                                     then bind
+                                                            (tick lim t0 c)
                                                             (fun _ ->
                                                             bind
                                                               (catch
@@ -8902,12 +8962,12 @@ let run_block pedantic repl lim =
                                                      crash
                                                        ('c'::('e'::('l'::('l'::(' '::('p'::('a'::('y'::('l'::('o'::('a'::('d'::(' '::('d'::('i'::('s'::('a'::('g'::('r'::('e'::('e'::('s'::(' '::('w'::('i'::('t'::('h'::(' '::('i'::('t'::('s'::(' '::('t'::('y'::('p'::('e'::[])))))))))))))))))))))))))))))))))))))
                                                in loop f)))))))))
-       | NBreak t -> failm (FBreak t)
-       | NContinue t -> failm (FContinue t)
-       | NProc (t, name, params, body) ->
+       | NBreak t0 -> failm (FBreak t0)
+       | NContinue t0 -> failm (FContinue t0)
+       | NProc (t0, name, params, body) ->
          bind (gets (fun s -> s.s_procs)) (fun ps ->
            match assoc_str name ps with
-           | Some _ -> rt_error t c
+           | Some _ -> rt_error t0 c
            | None ->
              bind
                (mapM (fun p0 ->
@@ -8922,13 +8982,13 @@ let run_block pedantic repl lim =
                    set_procs
                      (app s.s_procs ((name, { pd_params = pl; pd_body =
                        body }) :: [])) s)) (fun _ -> ret res_none)))
-       | NFunc (t, name, params, body, rett) ->
+       | NFunc (t0, name, params, body, rett) ->
          bind (gets (fun s -> s.s_funcs)) (fun fs ->
            match builtin_sig name with
-           | Some _ -> rt_error t c
+           | Some _ -> rt_error t0 c
            | None ->
              (match assoc_str name fs with
-              | Some _ -> rt_error t c
+              | Some _ -> rt_error t0 c
               | None ->
                 bind (get_type c rett true) (fun rty ->
                   if dt_is rty KNone
@@ -8946,27 +9006,27 @@ let run_block pedantic repl lim =
                              set_funcs
                                (app s.s_funcs ((name, { fd_params = pl;
                                  fd_body = body; fd_ret = rty; fd_tok =
-                                 t }) :: [])) s)) (fun _ -> ret res_none)))))
-       | NCall (t, name, args) -> call_procedure f t name args c
-       | NReturn (t, e) ->
+                                 t0 }) :: [])) s)) (fun _ -> ret res_none)))))
+       | NCall (t0, name, args) -> call_procedure f t0 name args c
+       | NReturn (t0, e) ->
          bind (get_ctx c) (fun cx ->
            if negb cx.x_isfun
-           then rt_error t c
+           then rt_error t0 c
            else bind (eval f e c) (fun r ->
                   bind (upd_ctx c (ctx_with_retval (Some r))) (fun _ ->
                     bind (implicit_cast cx.x_rettype r) (fun r' ->
                       bind (upd_ctx c (ctx_with_retval (Some r'))) (fun _ ->
                         if negb (dt_eq r'.r_type cx.x_rettype)
-                        then rt_error t c
+                        then rt_error t0 c
                         else failm FReturn)))))
        | NOutput (_, es) ->
          bind
            (iterM (fun e ->
              bind (eval f e c) (fun r -> output_item c (node_token e) r)) es)
            (fun _ -> bind (emit (ch_nl :: [])) (fun _ -> ret res_none))
-       | NInput (t, r) ->
+       | NInput (t0, r) ->
          bind
-           (catch (bind (resolve f r c) (fun h -> expect_holder_var t c h))
+           (catch (bind (resolve f r c) (fun h -> expect_holder_var t0 c h))
              (fun fl ->
              match fl with
              | FErr d ->
@@ -8990,7 +9050,7 @@ let run_block pedantic repl lim =
              | _ -> None)) (fun id ->
            bind (get_cell id) (fun cl ->
              if cl.c_const
-             then rt_error t c
+             then rt_error t0 c
              else bind read_line (fun x ->
                     let (line0, _) = x in
                     (match cl.c_type.dk with
@@ -9018,22 +9078,22 @@ let run_block pedantic repl lim =
                      | KStr ->
                        bind (set_cell_val id (PStr line0)) (fun _ ->
                          ret res_none)
-                     | _ -> rt_error t c))))
-       | NOpenFile (t, fn, mode) ->
+                     | _ -> rt_error t0 c))))
+       | NOpenFile (t0, fn, mode) ->
          bind (eval f fn c) (fun fr ->
            if negb (dt_is fr.r_type KStr)
-           then rt_error t c
+           then rt_error t0 c
            else bind (as_str fr) (fun name ->
                   bind (gets (fun s -> s.s_files)) (fun fl ->
                     match find_file name fl with
-                    | Some _ -> rt_error t c
+                    | Some _ -> rt_error t0 c
                     | None ->
                       bind (create_file name mode) (fun ok ->
-                        if ok then ret res_none else rt_error t c))))
-       | NReadFile (t, fn, id) ->
+                        if ok then ret res_none else rt_error t0 c))))
+       | NReadFile (t0, fn, id) ->
          bind (eval f fn c) (fun fr ->
            if negb (dt_is fr.r_type KStr)
-           then rt_error t c
+           then rt_error t0 c
            else bind (as_str fr) (fun name ->
                   bind (gets (fun s -> s.s_files)) (fun fl ->
                     match find_file name fl with
@@ -9046,9 +9106,9 @@ let run_block pedantic repl lim =
                               | Some i ->
                                 bind (get_cell i) (fun cl ->
                                   if negb (dt_is cl.c_type KStr)
-                                  then rt_error t c
+                                  then rt_error t0 c
                                   else if cl.c_const
-                                       then rt_error t c
+                                       then rt_error t0 c
                                        else ret i)
                               | None ->
                                 bind
@@ -9060,26 +9120,26 @@ let run_block pedantic repl lim =
                              bind (update_file fh') (fun _ ->
                                bind (set_cell_val vid (PStr line0)) (fun _ ->
                                  ret res_none))))
-                       | _ -> rt_error t c)
-                    | None -> rt_error t c)))
-       | NWriteFile (t, fn, d) ->
+                       | _ -> rt_error t0 c)
+                    | None -> rt_error t0 c)))
+       | NWriteFile (t0, fn, d) ->
          bind (eval f fn c) (fun fr ->
            if negb (dt_is fr.r_type KStr)
-           then rt_error t c
+           then rt_error t0 c
            else bind (as_str fr) (fun name ->
                   bind (gets (fun s -> s.s_files)) (fun fl ->
                     match find_file name fl with
                     | Some fh ->
                       (match fh.of_mode with
-                       | FRead -> rt_error t c
-                       | FRandom -> rt_error t c
+                       | FRead -> rt_error t0 c
+                       | FRandom -> rt_error t0 c
                        | _ ->
                          bind (eval f d c) (fun dr ->
                            match dr.r_type.dk with
-                           | KNone -> rt_error t c
-                           | KEnum -> rt_error t c
-                           | KPtr -> rt_error t c
-                           | KRec -> rt_error t c
+                           | KNone -> rt_error t0 c
+                           | KEnum -> rt_error t0 c
+                           | KPtr -> rt_error t0 c
+                           | KRec -> rt_error t0 c
                            | _ ->
                              bind (as_payload dr) (fun p0 ->
                                bind (prim_to_string p0) (fun s ->
@@ -9093,11 +9153,11 @@ let run_block pedantic repl lim =
                                             | None -> [])
                                            (app s (ch_nl :: []))) st0.s_fs)
                                        st0)) (fun _ -> ret res_none)))))
-                    | None -> rt_error t c)))
-       | NCloseFile (t, fn) ->
+                    | None -> rt_error t0 c)))
+       | NCloseFile (t0, fn) ->
          bind (eval f fn c) (fun fr ->
            if negb (dt_is fr.r_type KStr)
-           then rt_error t c
+           then rt_error t0 c
            else bind (as_str fr) (fun name ->
                   bind (gets (fun s -> s.s_files)) (fun fl ->
                     match find_file name fl with
@@ -9107,17 +9167,17 @@ let run_block pedantic repl lim =
                           (modify (fun s ->
                             set_files (remove_file name s.s_files) s))
                           (fun _ -> ret res_none))
-                    | None -> rt_error t c)))
-       | NSeek (t, fn, a) ->
+                    | None -> rt_error t0 c)))
+       | NSeek (t0, fn, a) ->
          bind (eval f a c) (fun ar ->
            if negb (dt_is ar.r_type KInt)
-           then rt_error t c
+           then rt_error t0 c
            else bind (as_int ar) (fun addr ->
                   if Z.ltb addr (Zpos XH)
-                  then rt_error t c
+                  then rt_error t0 c
                   else bind (eval f fn c) (fun fr ->
                          if negb (dt_is fr.r_type KStr)
-                         then rt_error t c
+                         then rt_error t0 c
                          else bind (as_str fr) (fun name ->
                                 bind (gets (fun s -> s.s_files)) (fun fl ->
                                   match find_file name fl with
@@ -9128,7 +9188,7 @@ let run_block pedantic repl lim =
                                             (Z.add
                                               (Z.of_nat (length fh.of_recs))
                                               (Zpos XH)) addr
-                                       then rt_error t c
+                                       then rt_error t0 c
                                        else bind
                                               (update_file { of_name =
                                                 fh.of_name; of_mode =
@@ -9139,12 +9199,12 @@ let run_block pedantic repl lim =
                                                 of_modified =
                                                 fh.of_modified }) (fun _ ->
                                               ret res_none)
-                                     | _ -> rt_error t c)
-                                  | None -> rt_error t c)))))
-       | NGetRecord (t, fn, id) ->
+                                     | _ -> rt_error t0 c)
+                                  | None -> rt_error t0 c)))))
+       | NGetRecord (t0, fn, id) ->
          bind (eval f fn c) (fun fr ->
            if negb (dt_is fr.r_type KStr)
-           then rt_error t c
+           then rt_error t0 c
            else bind (as_str fr) (fun name ->
                   bind (gets (fun s -> s.s_files)) (fun fl ->
                     match find_file name fl with
@@ -9157,17 +9217,17 @@ let run_block pedantic repl lim =
                              | Some vid ->
                                bind (get_cell vid) (fun cl ->
                                  if dt_is cl.c_type KPtr
-                                 then rt_error t c
+                                 then rt_error t0 c
                                  else bind
                                         (match ao with
                                          | Some aid ->
                                            bind (get_arr aid) (fun a ->
                                              if dt_is a.a_type KPtr
-                                             then rt_error t c
+                                             then rt_error t0 c
                                              else ret ())
                                          | None -> ret ()) (fun _ ->
                                         if cl.c_const
-                                        then rt_error t c
+                                        then rt_error t0 c
                                         else (match nth_z fh.of_recs fh.of_ptr with
                                               | Some rec0 ->
                                                 bind
@@ -9181,14 +9241,14 @@ let run_block pedantic repl lim =
                                                       new0) (fun _ ->
                                                     if ok
                                                     then ret res_none
-                                                    else rt_error t c))
-                                              | None -> rt_error t c)))
+                                                    else rt_error t0 c))
+                                              | None -> rt_error t0 c)))
                              | None ->
                                (match ao with
                                 | Some aid ->
                                   bind (get_arr aid) (fun a ->
                                     if dt_is a.a_type KPtr
-                                    then rt_error t c
+                                    then rt_error t0 c
                                     else (match nth_z fh.of_recs fh.of_ptr with
                                           | Some rec0 ->
                                             bind
@@ -9206,15 +9266,15 @@ let run_block pedantic repl lim =
                                                   a.a_elems news) (fun _ ->
                                                 if ok
                                                 then ret res_none
-                                                else rt_error t c))
-                                          | None -> rt_error t c))
+                                                else rt_error t0 c))
+                                          | None -> rt_error t0 c))
                                 | None -> not_defined_error id c)))
-                       | _ -> rt_error t c)
-                    | None -> rt_error t c)))
-       | NPutRecord (t, fn, id) ->
+                       | _ -> rt_error t0 c)
+                    | None -> rt_error t0 c)))
+       | NPutRecord (t0, fn, id) ->
          bind (eval f fn c) (fun fr ->
            if negb (dt_is fr.r_type KStr)
-           then rt_error t c
+           then rt_error t0 c
            else bind (as_str fr) (fun name ->
                   bind (gets (fun s -> s.s_files)) (fun fl ->
                     match find_file name fl with
@@ -9228,13 +9288,13 @@ let run_block pedantic repl lim =
                                 | Some vid ->
                                   bind (get_cell vid) (fun cl ->
                                     if dt_is cl.c_type KPtr
-                                    then rt_error t c
+                                    then rt_error t0 c
                                     else bind
                                            (match ao with
                                             | Some aid ->
                                               bind (get_arr aid) (fun a ->
                                                 if dt_is a.a_type KPtr
-                                                then rt_error t c
+                                                then rt_error t0 c
                                                 else ret ())
                                             | None -> ret ()) (fun _ ->
                                            bind (abs_val hfuel c cl.c_val)
@@ -9249,7 +9309,7 @@ let run_block pedantic repl lim =
                                    | Some aid ->
                                      bind (get_arr aid) (fun a ->
                                        if dt_is a.a_type KPtr
-                                       then rt_error t c
+                                       then rt_error t0 c
                                        else bind
                                               (mapM (fun e ->
                                                 bind (get_cell e) (fun cl ->
@@ -9274,29 +9334,29 @@ let run_block pedantic repl lim =
                                    of_recs = recs'; of_ptr = fh.of_ptr;
                                    of_modified = true }) (fun _ ->
                                  ret res_none))))
-                       | _ -> rt_error t c)
-                    | None -> rt_error t c))))
+                       | _ -> rt_error t0 c)
+                    | None -> rt_error t0 c))))
   and resolve fuel r c =
     match fuel with
     | O -> failm FFuel
     | S f ->
       (match r with
-       | RSimple t ->
-         bind (lookup_var c t.tval true) (fun v ->
+       | RSimple t0 ->
+         bind (lookup_var c t0.tval true) (fun v ->
            match v with
            | Some id -> ret (HVar id)
            | None ->
-             bind (lookup_arr c t.tval true) (fun a ->
+             bind (lookup_arr c t0.tval true) (fun a ->
                match a with
                | Some id -> ret (HArr id)
-               | None -> not_defined_error t c))
-       | RField (t, r', m0) ->
+               | None -> not_defined_error t0 c))
+       | RField (t0, r', m0) ->
          bind (resolve f r' c) (fun h ->
            match h with
            | HVar id ->
              bind (get_cell id) (fun cl ->
                if negb (dt_is cl.c_type KRec)
-               then rt_error t c
+               then rt_error t0 c
                else (match cl.c_val with
                      | PRec (_, rc) ->
                        bind (lookup_var rc m0.tval false) (fun v ->
@@ -9306,38 +9366,38 @@ let run_block pedantic repl lim =
                            bind (lookup_arr rc m0.tval false) (fun a ->
                              match a with
                              | Some aid -> ret (HArr aid)
-                             | None -> rt_error t c))
+                             | None -> rt_error t0 c))
                      | _ ->
                        crash
                          ('c'::('e'::('l'::('l'::(' '::('p'::('a'::('y'::('l'::('o'::('a'::('d'::(' '::('d'::('i'::('s'::('a'::('g'::('r'::('e'::('e'::('s'::(' '::('w'::('i'::('t'::('h'::(' '::('i'::('t'::('s'::(' '::('t'::('y'::('p'::('e'::[]))))))))))))))))))))))))))))))))))))))
-           | HArr _ -> rt_error t c)
-       | RDeref (t, r') ->
+           | HArr _ -> rt_error t0 c)
+       | RDeref (t0, r') ->
          bind (resolve f r' c) (fun h ->
            match h with
            | HVar id ->
              bind (get_cell id) (fun cl ->
                if negb (dt_is cl.c_type KPtr)
-               then rt_error t c
+               then rt_error t0 c
                else (match cl.c_val with
                      | PPtr (_, tgt, owner) ->
                        bind (on_chain c owner) (fun live ->
                          if negb live
-                         then rt_error t c
+                         then rt_error t0 c
                          else (match tgt with
                                | Some tid -> ret (HVar tid)
-                               | None -> rt_error t c))
+                               | None -> rt_error t0 c))
                      | _ ->
                        crash
                          ('c'::('e'::('l'::('l'::(' '::('p'::('a'::('y'::('l'::('o'::('a'::('d'::(' '::('d'::('i'::('s'::('a'::('g'::('r'::('e'::('e'::('s'::(' '::('w'::('i'::('t'::('h'::(' '::('i'::('t'::('s'::(' '::('t'::('y'::('p'::('e'::[]))))))))))))))))))))))))))))))))))))))
-           | HArr _ -> rt_error t c)
-       | RIndex (t, r', idx) ->
+           | HArr _ -> rt_error t0 c)
+       | RIndex (t0, r', idx) ->
          bind (resolve f r' c) (fun h ->
            match h with
-           | HVar _ -> rt_error t c
+           | HVar _ -> rt_error t0 c
            | HArr aid ->
              bind (get_arr aid) (fun a ->
                if negb (Nat.eqb (length idx) (length a.a_dims))
-               then rt_error t c
+               then rt_error t0 c
                else bind
                       (let rec go es ds =
                          match es with
@@ -9523,7 +9583,7 @@ let run_block pedantic repl lim =
             bind
               (put_arr aid { a_name = name; a_type = ty; a_dims = dims;
                 a_elems = elems }) (fun _ -> ret aid))))
-  and bind_args fuel t params args vals c fc =
+  and bind_args fuel t0 params args vals c fc =
     match fuel with
     | O -> failm FFuel
     | S f ->
@@ -9544,21 +9604,21 @@ let run_block pedantic repl lim =
              | v :: vr ->
                bind (if byref then ret v else implicit_cast pty v) (fun v' ->
                  if negb (dt_eq pty v'.r_type)
-                 then rt_error t c
+                 then rt_error t0 c
                  else bind
                         (if byref
                          then (match a with
                                | NAccess (_, rs) ->
                                  bind (resolve f rs c) (fun h ->
-                                   bind (expect_holder_var t c h) (fun id ->
+                                   bind (expect_holder_var t0 c h) (fun id ->
                                      add_var fc pn id))
-                               | _ -> rt_error t c)
+                               | _ -> rt_error t0 c)
                          else bind (new_var f pn v'.r_type false fc)
                                 (fun id ->
                                 bind (assign_val hfuel id v') (fun _ ->
                                   add_var fc pn id))) (fun _ ->
-                        bind_args f t pr ar vr c fc)))))
-  and call_procedure fuel t name args c =
+                        bind_args f t0 pr ar vr c fc)))))
+  and call_procedure fuel t0 name args c =
     match fuel with
     | O -> failm FFuel
     | S f ->
@@ -9567,17 +9627,19 @@ let run_block pedantic repl lim =
         | Some pd ->
           bind (mapM (fun a -> eval f a c) args) (fun vals ->
             if negb (Nat.eqb (length args) (length pd.pd_params))
-            then rt_error t c
+            then rt_error t0 c
             else bind (new_ctx (Some c) name false false dt_none) (fun pc ->
-                   bind (bind_args f t pd.pd_params args vals c pc) (fun _ ->
+                   bind (bind_args f t0 pd.pd_params args vals c pc)
+                     (fun _ ->
                      bind
-                       (upd_ctx c (ctx_with_switch (Some (t.tline, t.tcol))))
+                       (upd_ctx c
+                         (ctx_with_switch (Some (t0.tline, t0.tcol))))
                        (fun _ ->
                        bind (gets (fun s -> s.s_depth)) (fun d ->
                          bind
                            (if (&&) (Z.ltb Z0 lim.max_depth)
                                  (Z.ltb lim.max_depth (Z.add d (Zpos XH)))
-                            then budget_error t c
+                            then budget_error t0 c
                             else ret ()) (fun _ ->
                            bind (modify (set_depth (Z.add d (Zpos XH))))
                              (fun _ ->
@@ -9595,19 +9657,19 @@ let run_block pedantic repl lim =
                                (fun _ ->
                                bind (upd_ctx c (ctx_with_switch None))
                                  (fun _ -> ret res_none)))))))))
-        | None -> not_defined_error t c)
-  and call_function fuel t args c =
+        | None -> not_defined_error t0 c)
+  and call_function fuel t0 args c =
     match fuel with
     | O -> failm FFuel
     | S f ->
-      let name = t.tval in
+      let name = t0.tval in
       bind (gets (fun s -> s.s_funcs)) (fun fs ->
         match builtin_sig name with
         | Some p0 ->
           let (pkinds, rk) = p0 in
           bind (mapM (fun a -> eval f a c) args) (fun vals ->
             if negb (Nat.eqb (length args) (length pkinds))
-            then rt_error t c
+            then rt_error t0 c
             else bind (new_ctx (Some c) name true false (dt_prim rk))
                    (fun fc ->
                    bind
@@ -9620,19 +9682,20 @@ let run_block pedantic repl lim =
                            | v :: vr ->
                              bind (implicit_cast (dt_prim k) v) (fun v' ->
                                if negb (dt_is v'.r_type k)
-                               then rt_error t c
+                               then rt_error t0 c
                                else bind (as_payload v') (fun p1 ->
                                       bind (go kr vr) (fun rest0 ->
                                         ret (p1 :: rest0)))))
                       in go pkinds vals) (fun ps ->
                      bind
-                       (upd_ctx c (ctx_with_switch (Some (t.tline, t.tcol))))
+                       (upd_ctx c
+                         (ctx_with_switch (Some (t0.tline, t0.tcol))))
                        (fun _ ->
                        bind (gets (fun s -> s.s_depth)) (fun d ->
                          bind
                            (if (&&) (Z.ltb Z0 lim.max_depth)
                                  (Z.ltb lim.max_depth (Z.add d (Zpos XH)))
-                            then budget_error t c
+                            then budget_error t0 c
                             else ret ()) (fun _ ->
                            bind (run_builtin name fc ps) (fun r ->
                              bind (upd_ctx c (ctx_with_switch None))
@@ -9642,20 +9705,20 @@ let run_block pedantic repl lim =
            | Some fd ->
              bind (mapM (fun a -> eval f a c) args) (fun vals ->
                if negb (Nat.eqb (length args) (length fd.fd_params))
-               then rt_error t c
+               then rt_error t0 c
                else bind (new_ctx (Some c) name true false fd.fd_ret)
                       (fun fc ->
-                      bind (bind_args f t fd.fd_params args vals c fc)
+                      bind (bind_args f t0 fd.fd_params args vals c fc)
                         (fun _ ->
                         bind
                           (upd_ctx c
-                            (ctx_with_switch (Some (t.tline, t.tcol))))
+                            (ctx_with_switch (Some (t0.tline, t0.tcol))))
                           (fun _ ->
                           bind (gets (fun s -> s.s_depth)) (fun d ->
                             bind
                               (if (&&) (Z.ltb Z0 lim.max_depth)
                                     (Z.ltb lim.max_depth (Z.add d (Zpos XH)))
-                               then budget_error t c
+                               then budget_error t0 c
                                else ret ()) (fun _ ->
                               bind (modify (set_depth (Z.add d (Zpos XH))))
                                 (fun _ ->
@@ -9679,7 +9742,7 @@ let run_block pedantic repl lim =
                                       bind (upd_ctx c (ctx_with_switch None))
                                         (fun _ -> ret r)
                                     | None -> rt_error fd.fd_tok fc)))))))))
-           | None -> not_defined_error t c))
+           | None -> not_defined_error t0 c))
   in run_block0
 
 type status =
@@ -9704,15 +9767,15 @@ let global_ctx =
     (str_of_string ('P'::('r'::('o'::('g'::('r'::('a'::('m'::[]))))))));
     x_vars = []; x_arrs = []; x_enums = []; x_ptrs = []; x_comps = [];
     x_isfun = false; x_isrec = false; x_rettype = dt_none; x_retval = None;
-    x_switch = None }
+    x_switch = None; x_depth = O }
 
 (** val init_state : str -> (str * str) list -> z list -> st **)
 
 let init_state stdin fs rnd =
-  { s_next = (Npos (XO XH)); s_cells = []; s_arrs = []; s_ctxs = ((root_id,
-    global_ctx) :: []); s_procs = []; s_funcs = []; s_out = []; s_in = stdin;
-    s_fs = fs; s_files = []; s_steps = Z0; s_cellcount = Z0; s_depth = Z0;
-    s_rand = rnd }
+  { s_next = (Npos (XO XH)); s_cells = nm_empty; s_arrs = nm_empty; s_ctxs =
+    (nm_put root_id global_ctx nm_empty); s_procs = []; s_funcs = []; s_out =
+    []; s_in = stdin; s_fs = fs; s_files = []; s_steps = Z0; s_cellcount =
+    Z0; s_depth = Z0; s_rand = rnd }
 
 (** val warning_text : (z * z) -> str **)
 
@@ -9746,11 +9809,11 @@ let diag_of_lex e =
 
 (** val diag_of_parse : lexkind -> token -> diag **)
 
-let diag_of_parse k t =
+let diag_of_parse k t0 =
   { d_kind = (match k with
               | LexSyntax -> DSyntax
-              | LexPedantic -> DPedantic); d_line = t.tline; d_col = t.tcol;
-    d_cls = EOther; d_trace = [] }
+              | LexPedantic -> DPedantic); d_line = t0.tline; d_col =
+    t0.tcol; d_cls = EOther; d_trace = [] }
 
 (** val close_all_files : unit m **)
 
@@ -9775,8 +9838,8 @@ let run_main pedantic lim fuel repl b root s =
       | FErr d -> ((EDiag d), s')
       | FCrash site -> ((EAbort (SCrash site)), s')
       | FFuel -> ((EAbort SFuel), s')
-      | FBreak t ->
-        let (o0, s'') = rt_error t root s' in
+      | FBreak t0 ->
+        let (o0, s'') = rt_error t0 root s' in
         (match o0 with
          | Ok _ ->
            ((EAbort (SCrash
@@ -9789,8 +9852,8 @@ let run_main pedantic lim fuel repl b root s =
               ((EAbort (SCrash
                 ('t'::('r'::('a'::('c'::('e'::('b'::('a'::('c'::('k'::[]))))))))))),
                 s'')))
-      | FContinue t ->
-        let (o0, s'') = rt_error t root s' in
+      | FContinue t0 ->
+        let (o0, s'') = rt_error t0 root s' in
         (match o0 with
          | Ok _ ->
            ((EAbort (SCrash
@@ -9822,9 +9885,10 @@ let run_source pedantic lim fuel repl src root s =
        (match e with
         | EDiag d -> ((EDiag d), (set_out ((ch_nl :: []) :: s2.s_out) s2))
         | x -> (x, s2))
-     | PFail (k, t, ps) ->
+     | PFail (k, t0, ps) ->
        let s1 = emit_warnings ps.p_warns s in
-       ((EDiag (diag_of_parse k t)), (set_out ((ch_nl :: []) :: s1.s_out) s1))
+       ((EDiag (diag_of_parse k t0)),
+       (set_out ((ch_nl :: []) :: s1.s_out) s1))
      | PFuel -> ((EAbort SFuel), s))
   | Inr e -> ((EDiag (diag_of_lex e)), (set_out ((ch_nl :: []) :: s.s_out) s))
 
@@ -9946,12 +10010,12 @@ let rec read_continuation n0 code s =
 
 let rec strip_trailing_blanks_keep_first r = match r with
 | [] -> []
-| c :: t ->
-  (match t with
+| c :: t0 ->
+  (match t0 with
    | [] -> c :: []
    | _ :: _ ->
      if (||) (aeqb c ch_space) (aeqb c ch_tab)
-     then strip_trailing_blanks_keep_first t
+     then strip_trailing_blanks_keep_first t0
      else r)
 
 (** val exit_msg : bool -> str **)
